@@ -5,7 +5,7 @@
 import Oryx.Model.WsRead
 import Oryx.Spec.Ws
 namespace Oryx.WsRead
-open Oryx Oryx.Gen.Websocket
+open Oryx Oryx.Gen.Websocket Oryx.Spec.Ws
 
 /-! ### the monad -/
 
@@ -820,5 +820,1396 @@ theorem sessionLoop_limit (L : Int) (hL : 0 < L) (fuel : Nat) (s : RState) (acc 
       exact ⟨hacc, by rw [hs] at hm; exact hm⟩
     · cases h; exact ⟨hacc, by simp; omega⟩
     · cases h
+
+/-! ### symbolic execution of `advanceFrame` on the wire image of a spec frame -/
+
+/-- The Go bit operations on the two header bytes recover the spec's fields. -/
+theorem decodeHdr_bytes (f : Frame) (hop : f.opcode < 16) (h7 : len7 f < 128) :
+    decodeHdr (byte0 f) (byte1 f) =
+      { final := f.fin, rsv1 := f.rsv1, rsv23 := f.rsv2 || f.rsv3, frameType := f.opcode,
+        mask := f.masked, len7 := len7 f } := by
+  have k0 : ∀ (a b c d : Bool) (o : Fin 16),
+      let x := UInt8.ofNat (128 * b2n a + 64 * b2n b + 32 * b2n c + 16 * b2n d + o.val)
+      (x &&& UInt8.ofNat finalBit != 0) = a ∧ (x &&& UInt8.ofNat rsv1Bit != 0) = b ∧
+      (x &&& UInt8.ofNat (rsv2Bit + rsv3Bit) != 0) = (c || d) ∧ (x &&& 0xf).toNat = o.val := by decide
+  have k1 : ∀ (m : Bool) (l : Fin 128),
+      let y := UInt8.ofNat (128 * b2n m + l.val)
+      (y &&& UInt8.ofNat maskBit != 0) = m ∧ (y &&& 0x7f).toNat = l.val := by decide
+  obtain ⟨e1, e2, e3, e4⟩ := k0 f.fin f.rsv1 f.rsv2 f.rsv3 ⟨f.opcode, hop⟩
+  obtain ⟨e5, e6⟩ := k1 f.masked ⟨len7 f, h7⟩
+  simp only [decodeHdr, byte0, byte1]
+  simp only at e1 e2 e3 e4 e5 e6
+  rw [e1, e2, e3, e4, e5, e6]
+
+theorem len7_lt (f : Frame) (h : f.WF) : len7 f < 128 := by
+  obtain ⟨_, hf, h0, _, _, _, _⟩ := h
+  unfold len7; split
+  · rename_i h0'; have := h0 h0'; omega
+  · omega
+  · omega
+
+theorem wrap64_nat_nonneg {n : Nat} (h : n < 2 ^ 63) : wrap64 (n : Int) = (n : Int) := wrap64_of_lt h
+
+/-- Stage 3 on the spec's extended-length bytes. -/
+theorem readLength_frame (f : Frame) (hwf : f.WF) (h : Hdr) (h7 : h.len7 = len7 f) (s : RState) (tail : Bytes)
+    (hin : s.input = extLen f ++ tail) (hr : s.readRemaining = wrap64 (len7 f)) :
+    readLength h s =
+      if 2 ^ 63 ≤ f.len then protoErr { s with input := tail, readRemaining := wrap64 f.len }
+      else .ok () { s with input := tail, readRemaining := f.len } := by
+  obtain ⟨_, hform, h0, h1, h2, _, _⟩ := hwf
+  have hcases : f.lenForm = 0 ∨ f.lenForm = 1 ∨ f.lenForm = 2 := by omega
+  rcases hcases with hf | hf | hf
+  · have hl := h0 hf
+    have e7 : len7 f = f.len := by simp [len7, hf]
+    have ee : extLen f = [] := by simp [extLen, hf]
+    have hnot : ¬ (2 ^ 63 ≤ f.len) := by omega
+    have hs : s = { s with input := tail, readRemaining := (f.len : Int) } := by
+      cases s; simp_all [wrap64_of_lt (show f.len < 2 ^ 63 by omega)]
+    simp only [readLength, h7, e7, hnot, if_false]
+    have n1 : (f.len == 126) = false := by simp; omega
+    have n2 : (f.len == 127) = false := by simp; omega
+    simp only [n1, n2, Bool.false_eq_true, if_false]
+    exact congrArg _ hs
+  · have hl := h1 hf
+    have e7 : len7 f = 126 := by simp [len7, hf]
+    have ee : extLen f = be 2 f.len := by simp [extLen, hf]
+    have hnot : ¬ (2 ^ 63 ≤ f.len) := by omega
+    have h2' : 2 ≤ s.input.length := by rw [hin, ee]; simp
+    have ht : s.input.take 2 = be 2 f.len := by rw [hin, ee]; exact take_append_len _ _ (by simp)
+    have hd : s.input.drop 2 = tail := by rw [hin, ee]; exact drop_append_len _ _ (by simp)
+    have hv : ofBE (be 2 f.len) = f.len := ofBE_be_of_lt (by omega)
+    simp [readLength, h7, e7, hnot, readN_eq, h2', ht, hd, hv, wrap64_of_lt (show f.len < 2 ^ 63 by omega)]
+  · have hl := h2 hf
+    have e7 : len7 f = 127 := by simp [len7, hf]
+    have ee : extLen f = be 8 f.len := by simp [extLen, hf]
+    have h8 : 8 ≤ s.input.length := by rw [hin, ee]; simp
+    have ht : s.input.take 8 = be 8 f.len := by rw [hin, ee]; exact take_append_len _ _ (by simp)
+    have hd : s.input.drop 8 = tail := by rw [hin, ee]; exact drop_append_len _ _ (by simp)
+    have hv : ofBE (be 8 f.len) = f.len := ofBE_be_of_lt (by omega)
+    by_cases htop : 2 ^ 63 ≤ f.len
+    · have hneg := wrap64_neg_of_ge htop hl
+      simp [readLength, h7, e7, htop, readN_eq, h8, ht, hd, hv, hneg]
+    · simp [readLength, h7, e7, htop, readN_eq, h8, ht, hd, hv, wrap64_of_lt (show f.len < 2 ^ 63 by omega)]
+      intro hneg; omega
+
+/-- The header of a spec frame as `readHdr` decodes it. -/
+def hdrOf (f : Frame) : Hdr :=
+  { final := f.fin, rsv1 := f.rsv1, rsv23 := f.rsv2 || f.rsv3, frameType := f.opcode, mask := f.masked, len7 := len7 f }
+
+/-- What `checkHdr` rejects, as a function of the frame and the two state bits it looks at. -/
+def hdrBad (decompress readFinal : Bool) (f : Frame) : Bool :=
+  (f.rsv1 && !(decompress && f.rsv1 && isData f.opcode)) || (f.rsv2 || f.rsv3)
+  || (if isControl f.opcode then (decide (len7 f > maxControlFramePayloadSize) || !f.fin)
+      else if isData f.opcode then !readFinal
+      else if f.opcode == continuationFrame then readFinal
+      else true)
+
+theorem checkHdr_frame (f : Frame) (s : RState) :
+    checkHdr (hdrOf f) s =
+      if hdrBad s.decompress s.readFinal f then
+        protoErr { s with readDecompress := s.decompress && f.rsv1 && isData f.opcode }
+      else .ok () { s with readDecompress := s.decompress && f.rsv1 && isData f.opcode,
+                           readFinal := if isControl f.opcode then s.readFinal else f.fin } := by
+  simp only [checkHdr, hdrOf, hdrBad]
+  by_cases h1 : ((f.rsv1 && !(s.decompress && f.rsv1 && isData f.opcode)) || (f.rsv2 || f.rsv3)) = true
+  · simp only [h1, if_true, Bool.true_or]
+  · simp only [h1, Bool.false_eq_true, if_false, Bool.false_or]
+    by_cases hc : isControl f.opcode = true
+    · simp only [hc, if_true]
+      by_cases hl : len7 f > maxControlFramePayloadSize
+      · simp [hl]
+      · by_cases hf : f.fin = true
+        · simp [hl, hf]
+        · simp [hl, hf]
+    · simp only [hc, Bool.false_eq_true, if_false]
+      by_cases hd : isData f.opcode = true
+      · simp only [hd, if_true]
+        try (cases s.readFinal <;> simp)
+      · simp only [hd, Bool.false_eq_true, if_false]
+        by_cases h0 : (f.opcode == continuationFrame) = true
+        · simp only [h0, if_true]
+          try (cases s.readFinal <;> simp)
+        · simp [h0]
+
+/-- Stage 4 on the spec's key bytes. -/
+theorem readMask_frame (f : Frame) (hwf : f.WF) (s : RState) (tail : Bytes)
+    (hin : s.input = (if f.masked then f.key else []) ++ tail) :
+    readMask (hdrOf f) s =
+      if f.masked != s.isServer then protoErr s
+      else .ok () (if f.masked then { s with input := tail, maskPos := 0, maskKey := f.key } else { s with input := tail }) := by
+  obtain ⟨_, _, _, _, _, hk, _⟩ := hwf
+  simp only [readMask, hdrOf]
+  by_cases hm : (f.masked != s.isServer) = true
+  · simp [hm]
+  · simp only [hm, Bool.false_eq_true, if_false]
+    by_cases hmm : f.masked = true
+    · simp only [hmm, if_true] at hin hk ⊢
+      have h4 : 4 ≤ s.input.length := by rw [hin]; simp [hk]
+      have ht : s.input.take 4 = f.key := by rw [hin]; exact take_append_len _ _ hk
+      have hd : s.input.drop 4 = tail := by rw [hin]; exact drop_append_len _ _ hk
+      simp [readN_eq, h4, ht, hd]
+    · simp only [hmm, Bool.false_eq_true, if_false] at hin ⊢
+      have : s = { s with input := tail } := by cases s; simp_all
+      exact congrArg _ this
+
+theorem maskBytes_eq_xorMask (key : Bytes) (pos : Nat) (bs : Bytes) : maskBytes key pos bs = xorMask key pos bs := by
+  induction bs generalizing pos with
+  | nil => rfl
+  | cons b bs ih => simp [maskBytes, xorMask, ih]
+
+theorem xorMask_involution (key : Bytes) (pos : Nat) (bs : Bytes) : xorMask key pos (xorMask key pos bs) = bs := by
+  induction bs generalizing pos with
+  | nil => rfl
+  | cons b bs ih =>
+    simp only [xorMask, ih]
+    rw [UInt8.xor_assoc, UInt8.xor_self, UInt8.xor_zero]
+
+theorem xorMask_length (key : Bytes) (pos : Nat) (bs : Bytes) : (xorMask key pos bs).length = bs.length := by
+  induction bs generalizing pos with
+  | nil => rfl
+  | cons b bs ih => simp [xorMask, ih]
+
+theorem wirePayload_length (f : Frame) : (wirePayload f).length = f.payload.length := by
+  unfold wirePayload; split <;> simp [xorMask_length]
+
+/-- Stage 6 on the spec's payload bytes: the control payload comes out unmasked. -/
+theorem readCtlPayload_frame (f : Frame) (hwf : f.WF) (s : RState) (rest : Bytes)
+    (hin : s.input = wirePayload f ++ rest) (hr : s.readRemaining = f.len)
+    (hrole : f.masked = s.isServer) (hkey : f.masked = true → s.maskKey = f.key) :
+    readCtlPayload s = .ok f.payload { s with input := rest, readRemaining := 0 } := by
+  obtain ⟨_, _, _, _, _, _, hpl⟩ := hwf
+  simp only [readCtlPayload]
+  have hwl : (wirePayload f).length = f.len := by rw [wirePayload_length, hpl]
+  by_cases hpos : s.readRemaining > 0
+  · simp only [hpos, if_true]
+    have hn : s.readRemaining.toNat = f.len := by rw [hr]; simp
+    have hle : f.len ≤ s.input.length := by rw [hin]; simp [hwl]
+    have ht : s.input.take f.len = wirePayload f := by rw [hin]; exact take_append_len _ _ hwl
+    have hd : s.input.drop f.len = rest := by rw [hin]; exact drop_append_len _ _ hwl
+    simp only [readN_eq, hn, hle, if_true, ht, hd]
+    cases hs : s.isServer
+    · simp [wirePayload, hrole, hs]
+    · have hm : f.masked = true := by rw [hrole, hs]
+      simp [wirePayload, hm, hkey hm, maskBytes_eq_xorMask, xorMask_involution]
+  · have h0 : f.len = 0 := by rw [hr] at hpos; omega
+    have hp : f.payload = [] := List.eq_nil_of_length_eq_zero (by rw [hpl, h0])
+    have hw : wirePayload f = [] := List.eq_nil_of_length_eq_zero (by rw [hwl, h0])
+    simp only [hpos, if_false]
+    have : s = { s with input := rest, readRemaining := 0 } := by
+      cases s; simp_all
+    rw [hp]; exact congrArg _ this
+
+/-- A protocol failure as `handleProtocolError` leaves it: Close 1002 appended to the replies (unless a
+Close went out before), close latch set. -/
+def ProtoFail (s : RState) (o : Out Nat) : Prop :=
+  ∃ s', o = .fail .proto s' ∧ s'.closeSent = true ∧
+    s'.replies = if s.closeSent then s.replies else s.replies ++ [(CloseMessage, be 2 CloseProtocolError)]
+
+theorem protoErr_fail (s0 s : RState) (hr : s.replies = s0.replies) (hc : s.closeSent = s0.closeSent) :
+    ProtoFail s0 (protoErr s) := by
+  refine ⟨_, rfl, ?_, ?_⟩
+  · unfold sendCtl; split
+    · assumption
+    · simp [CloseMessage]
+  · unfold sendCtl; rw [← hc, ← hr]; split <;> simp_all
+
+/-- State after the header, length and mask stages of a frame that passes them. -/
+def afterHdr (s : RState) (f : Frame) (rest : Bytes) : RState :=
+  { s with input := wirePayload f ++ rest, readRemaining := f.len,
+           readDecompress := s.decompress && f.rsv1 && isData f.opcode,
+           readFinal := if isControl f.opcode then s.readFinal else f.fin,
+           maskPos := if f.masked then 0 else s.maskPos,
+           maskKey := if f.masked then f.key else s.maskKey }
+
+/-- intermediate states of the symbolic execution -/
+def st1 (s : RState) (f : Frame) (rest : Bytes) : RState :=
+  { s with input := extLen f ++ ((if f.masked then f.key else []) ++ (wirePayload f ++ rest)),
+           readRemaining := wrap64 (len7 f) }
+def st2 (s : RState) (f : Frame) (rest : Bytes) : RState :=
+  { st1 s f rest with readDecompress := s.decompress && f.rsv1 && isData f.opcode,
+                      readFinal := if isControl f.opcode then s.readFinal else f.fin }
+def st3 (s : RState) (f : Frame) (rest : Bytes) : RState :=
+  { st2 s f rest with input := (if f.masked then f.key else []) ++ (wirePayload f ++ rest),
+                      readRemaining := (f.len : Int) }
+
+def tailF (h : Hdr) : M Nat :=
+  if h.frameType == continuationFrame || isData h.frameType then dataFrame h else controlFrame h
+def afterLen (h : Hdr) : M Nat := readMask h >>= fun _ => tailF h
+def afterChk (h : Hdr) : M Nat := readLength h >>= fun _ => afterLen h
+
+theorem advanceFrame_unfold :
+    advanceFrame = (skipPrev >>= fun _ => readHdr >>= fun h => checkHdr h >>= fun _ => afterChk h) := rfl
+
+/-- `advanceFrame` on the wire image of a well-formed frame as one chain of decisions (symbolic
+execution through the header, length and mask stages). -/
+theorem advanceFrame_eq (s : RState) (f : Frame) (rest : Bytes) (hwf : f.WF)
+    (hr : s.readRemaining ≤ 0) (hin : s.input = serialise f ++ rest) :
+    advanceFrame s =
+      if hdrBad s.decompress s.readFinal f then
+        protoErr { st1 s f rest with readDecompress := s.decompress && f.rsv1 && isData f.opcode }
+      else if 2 ^ 63 ≤ f.len then
+        protoErr { st2 s f rest with input := (if f.masked then f.key else []) ++ (wirePayload f ++ rest),
+                                     readRemaining := wrap64 f.len }
+      else if f.masked != s.isServer then protoErr (st3 s f rest)
+      else tailF (hdrOf f) (afterHdr s f rest) := by
+  have h7 := len7_lt f hwf
+  have hin' : s.input = byte0 f :: byte1 f :: (extLen f ++ (((if f.masked then f.key else []) ++ (wirePayload f ++ rest)))) := by
+    rw [hin]; simp [serialise, List.append_assoc]
+  have hdec := decodeHdr_bytes f hwf.1 h7
+  have e1 : advanceFrame s = (checkHdr (hdrOf f) >>= fun _ => afterChk (hdrOf f)) (st1 s f rest) := by
+    rw [advanceFrame_unfold, bind_def, skipPrev_noop s hr]
+    simp only
+    rw [bind_def, readHdr_ok s _ _ _ hin', hdec]
+    rfl
+  have e2 : (checkHdr (hdrOf f) >>= fun _ => afterChk (hdrOf f)) (st1 s f rest) =
+      if hdrBad s.decompress s.readFinal f then
+        protoErr { st1 s f rest with readDecompress := s.decompress && f.rsv1 && isData f.opcode }
+      else afterChk (hdrOf f) (st2 s f rest) := by
+    rw [bind_def, checkHdr_frame f (st1 s f rest)]
+    by_cases hb : hdrBad s.decompress s.readFinal f = true
+    · have hb' : hdrBad (st1 s f rest).decompress (st1 s f rest).readFinal f = true := hb
+      simp only [hb, hb', if_true]; rfl
+    · have hb' : ¬ hdrBad (st1 s f rest).decompress (st1 s f rest).readFinal f = true := hb
+      simp only [hb, hb']; rfl
+  have e3 : afterChk (hdrOf f) (st2 s f rest) =
+      if 2 ^ 63 ≤ f.len then
+        protoErr { st2 s f rest with input := (if f.masked then f.key else []) ++ (wirePayload f ++ rest),
+                                     readRemaining := wrap64 f.len }
+      else afterLen (hdrOf f) (st3 s f rest) := by
+    unfold afterChk
+    rw [bind_def, readLength_frame f hwf (hdrOf f) rfl (st2 s f rest) _ rfl rfl]
+    by_cases ht : 2 ^ 63 ≤ f.len
+    · simp only [ht, if_true]; rfl
+    · simp only [ht, if_false]; rfl
+  have e4 : afterLen (hdrOf f) (st3 s f rest) =
+      if f.masked != s.isServer then protoErr (st3 s f rest) else tailF (hdrOf f) (afterHdr s f rest) := by
+    unfold afterLen
+    rw [bind_def, readMask_frame f hwf (st3 s f rest) _ rfl]
+    have hsv : (st3 s f rest).isServer = s.isServer := rfl
+    rw [hsv]
+    by_cases hm : (f.masked != s.isServer) = true
+    · simp only [hm, if_true]; rfl
+    · simp only [hm, Bool.false_eq_true, if_false]
+      refine congrArg (tailF (hdrOf f)) ?_
+      unfold afterHdr st3 st2 st1
+      cases f.masked <;> simp
+  rw [e1, e2, e3, e4]
+
+/-- The two facts the refinement proof uses. -/
+theorem advanceFrame_frame (s : RState) (f : Frame) (rest : Bytes) (hwf : f.WF)
+    (hr : s.readRemaining ≤ 0) (hin : s.input = serialise f ++ rest) :
+    ((hdrBad s.decompress s.readFinal f = true ∨ 2 ^ 63 ≤ f.len ∨ f.masked ≠ s.isServer) →
+        ProtoFail s (advanceFrame s)) ∧
+    (hdrBad s.decompress s.readFinal f = false → ¬ 2 ^ 63 ≤ f.len → f.masked = s.isServer →
+        advanceFrame s = tailF (hdrOf f) (afterHdr s f rest)) := by
+  rw [advanceFrame_eq s f rest hwf hr hin]
+  refine ⟨fun h => ?_, fun h1 h2 h3 => ?_⟩
+  · split
+    · exact protoErr_fail s _ rfl rfl
+    · rename_i hb
+      split
+      · exact protoErr_fail s _ rfl rfl
+      · rename_i ht
+        split
+        · exact protoErr_fail s _ rfl rfl
+        · rename_i hm
+          rcases h with h | h | h
+          · exact absurd h hb
+          · exact absurd h ht
+          · exact absurd (by simpa using hm) h
+  · simp [h1, h2, h3]
+
+def roleOf (isServer : Bool) : Role := if isServer then .server else .client
+
+theorem isControl_eq (n : Nat) : isControl n = Spec.Ws.isControl n := by
+  simp [isControl, Spec.Ws.isControl, CloseMessage, PingMessage, PongMessage]
+theorem isData_eq (n : Nat) : isData n = Spec.Ws.isDataStart n := by
+  simp [isData, Spec.Ws.isDataStart, TextMessage, BinaryMessage]
+
+theorem len7_gt_iff (f : Frame) (h : f.WF) : (len7 f > 125) ↔ (125 < f.len ∨ f.lenForm ≠ 0) := by
+  obtain ⟨_, hf, h0, _, _, _, _⟩ := h
+  have hcases : f.lenForm = 0 ∨ f.lenForm = 1 ∨ f.lenForm = 2 := by omega
+  rcases hcases with hc | hc | hc
+  · have := h0 hc; simp [len7, hc]
+  · simp [len7, hc]
+  · simp [len7, hc]
+
+/-- The spec's list of violations is what the model rejects in its four places: header checks,
+length top bit, mask rule, close body. -/
+theorem violation_eq (isServer d readFinal : Bool) (f : Frame) (h : f.WF) :
+    Spec.Ws.violation (roleOf isServer) d (!readFinal) f =
+      (hdrBad d readFinal f || decide (2 ^ 63 ≤ f.len) || (f.masked != isServer) ||
+        (f.opcode == 8 && Spec.Ws.closeBodyBad f.payload)) := by
+  have hl := len7_gt_iff f h
+  have hrole : (roleOf isServer == Role.server) = isServer := by cases isServer <;> rfl
+  unfold Spec.Ws.violation hdrBad
+  rw [hrole, isControl_eq, isData_eq]
+  simp only [maxControlFramePayloadSize, continuationFrame]
+  generalize (f.masked != isServer) = mk
+  generalize decide (2 ^ 63 ≤ f.len) = tp
+  by_cases hc : Spec.Ws.isControl f.opcode = true
+  · have hnd : Spec.Ws.isDataStart f.opcode = false := by
+      simp only [Spec.Ws.isControl, Spec.Ws.isDataStart, Bool.or_eq_true, beq_iff_eq] at hc ⊢
+      rcases hc with (h | h) | h <;> simp [h]
+    have hn0 : (f.opcode == 0) = false := by
+      simp only [Spec.Ws.isControl, Bool.or_eq_true, beq_iff_eq] at hc
+      rcases hc with (h | h) | h <;> simp [h]
+    have hk : Spec.Ws.knownOpcode f.opcode = true := by simp [Spec.Ws.knownOpcode, hc]
+    simp only [hc, hnd, hn0, hk, if_true]
+    by_cases hg : len7 f > 125
+    · have := hl.mp hg
+      rcases this with h1 | h1
+      · cases mk <;> cases tp <;> cases f.rsv1 <;> cases f.rsv2 <;> cases f.rsv3 <;> cases f.fin <;> cases d <;> simp [hg, h1]
+      · have h1' : (f.lenForm != 0) = true := by simpa using h1
+        cases mk <;> cases tp <;> cases f.rsv1 <;> cases f.rsv2 <;> cases f.rsv3 <;> cases f.fin <;> cases d <;> simp [hg, h1']
+    · have := (not_congr hl).mp hg
+      have h1 : ¬ 125 < f.len := fun hh => this (Or.inl hh)
+      have h2 : (f.lenForm != 0) = false := by
+        have : ¬ f.lenForm ≠ 0 := fun hh => this (Or.inr hh)
+        simpa using this
+      cases mk <;> cases tp <;> cases f.rsv1 <;> cases f.rsv2 <;> cases f.rsv3 <;> cases f.fin <;> cases d <;> simp [hg, h1, h2]
+  · have hc' : Spec.Ws.isControl f.opcode = false := by simpa using hc
+    have hn8 : (f.opcode == 8) = false := by
+      simp only [Spec.Ws.isControl, Bool.or_eq_false_iff, beq_eq_false_iff_ne] at hc'
+      simpa using hc'.1.1
+    simp only [hc', hn8, Bool.false_eq_true, if_false, Bool.false_and, Bool.or_false]
+    by_cases hd : Spec.Ws.isDataStart f.opcode = true
+    · have hn0 : (f.opcode == 0) = false := by
+        simp only [Spec.Ws.isDataStart, Bool.or_eq_true, beq_iff_eq] at hd
+        rcases hd with h | h <;> simp [h]
+      have hk : Spec.Ws.knownOpcode f.opcode = true := by simp [Spec.Ws.knownOpcode, hd]
+      simp only [hd, hn0, hk, if_true]
+      cases mk <;> cases tp <;> cases f.rsv1 <;> cases f.rsv2 <;> cases f.rsv3 <;> cases readFinal <;> cases d <;> simp
+    · have hd' : Spec.Ws.isDataStart f.opcode = false := by simpa using hd
+      simp only [hd', Bool.false_eq_true, if_false]
+      by_cases h0 : (f.opcode == 0) = true
+      · have hk : Spec.Ws.knownOpcode f.opcode = true := by simp [Spec.Ws.knownOpcode, h0]
+        simp only [h0, hk, if_true]
+        cases mk <;> cases tp <;> cases f.rsv1 <;> cases f.rsv2 <;> cases f.rsv3 <;> cases readFinal <;> cases d <;> simp
+      · have h0' : (f.opcode == 0) = false := by simpa using h0
+        have hk : Spec.Ws.knownOpcode f.opcode = false := by simp [Spec.Ws.knownOpcode, h0', hd', hc']
+        simp only [h0', hk, Bool.false_eq_true, if_false]
+        cases mk <;> cases tp <;> cases f.rsv1 <;> cases f.rsv2 <;> cases f.rsv3 <;> simp
+
+/-- The close-code table extracted from the Go source is the RFC 6455 §7.4 / IANA set of the spec. -/
+theorem closeCode_eq (c : Nat) : Spec.Ws.validCloseCode c = isValidReceivedCloseCode c := by
+  by_cases h : c < 1100
+  · by_cases h1 : c < 990
+    · simp only [Spec.Ws.validCloseCode, isValidReceivedCloseCode, validReceivedCloseCodes]
+      have e : ∀ k : Nat, 990 ≤ k → (c == k) = false := by intro k hk; simp; omega
+      have e' : ∀ k : Nat, 990 ≤ k → ¬ c = k := by intro k hk; omega
+      simp [e, e', show ¬ 3000 ≤ c by omega]
+    · have key : ∀ i : Fin 110, Spec.Ws.validCloseCode (990 + i.val) = isValidReceivedCloseCode (990 + i.val) := by
+        decide +kernel
+      have := key ⟨c - 990, by omega⟩
+      simpa [show 990 + (c - 990) = c by omega] using this
+  · simp only [Spec.Ws.validCloseCode, isValidReceivedCloseCode, validReceivedCloseCodes]
+    have e : ∀ k : Nat, k < 1100 → (c == k) = false := by intro k hk; simp; omega
+    have e' : ∀ k : Nat, k < 1100 → ¬ c = k := by intro k hk; omega
+    simp [e, e']
+
+theorem inR_iff (b : UInt8) (lo hi : Nat) : Spec.Ws.inR b lo hi = (decide (lo ≤ b.toNat) && decide (b.toNat ≤ hi)) := rfl
+theorem tailB_iff (b : UInt8) : Spec.Ws.tailB b = (decide (0x80 ≤ b.toNat) && decide (b.toNat ≤ 0xBF)) := rfl
+
+/-- Go's `utf8.ValidString` as modelled = the RFC 3629 ABNF of the spec. -/
+theorem utf8ValidF_eq (n : Nat) (bs : Bytes) : Spec.Ws.utf8ValidF n bs = utf8ValidF n bs := by
+  induction n generalizing bs with
+  | zero => cases bs <;> rfl
+  | succ n ih =>
+    cases bs with
+    | nil => rfl
+    | cons a rest =>
+      simp only [Spec.Ws.utf8ValidF, utf8ValidF, inR_iff, tailB_iff]
+      have hx := UInt8.toNat_lt a
+      by_cases h1 : a.toNat < 0x80
+      · have e0 : a.toNat ≤ 0x7F := by omega
+        simp [h1, e0, ih]
+      · by_cases h2 : a.toNat < 0xC2
+        · have : ¬ (0xC2 ≤ a.toNat) := by omega
+          have h3 : ¬ (0xE0 ≤ a.toNat) := by omega
+          have h4 : ¬ (0xF0 ≤ a.toNat) := by omega
+          simp [h1, h2, this, h3, h4, show ¬ a.toNat ≤ 0x7F by omega]
+        · by_cases h3 : a.toNat < 0xE0
+          · have e1 : ¬ a.toNat ≤ 0x7F := by omega
+            have e2 : 0xC2 ≤ a.toNat := by omega
+            have e3 : a.toNat ≤ 0xDF := by omega
+            cases rest with
+            | nil => simp [h1, h2, h3, e1, e2, e3]
+            | cons b r => simp [h1, h2, h3, e1, e2, e3, ih]
+          · by_cases h4 : a.toNat < 0xF0
+            · have e1 : ¬ a.toNat ≤ 0x7F := by omega
+              have e2 : ¬ a.toNat ≤ 0xDF := by omega
+              have e3 : 0xE0 ≤ a.toNat := by omega
+              have e4 : a.toNat ≤ 0xEF := by omega
+              match rest with
+              | [] => simp [h1, h2, h3, h4, e1, e2, e3, e4]
+              | [_] => simp [h1, h2, h3, h4, e1, e2, e3, e4]
+              | b :: c :: r =>
+                simp only [h1, h2, h3, h4, e1, e2, e3, e4, ih, decide_true, decide_false, Bool.and_true,
+                  Bool.and_false, if_true, if_false, Bool.false_eq_true]
+                by_cases ha : a.toNat = 0xE0
+                · simp [ha]
+                · by_cases hb : a.toNat = 0xED
+                  · simp [hb]
+                  · simp [ha, hb]
+            · by_cases h5 : a.toNat < 0xF5
+              · have e1 : ¬ a.toNat ≤ 0x7F := by omega
+                have e2 : ¬ a.toNat ≤ 0xDF := by omega
+                have e3 : ¬ a.toNat ≤ 0xEF := by omega
+                have e4 : 0xF0 ≤ a.toNat := by omega
+                have e5 : a.toNat ≤ 0xF4 := by omega
+                match rest with
+                | [] => simp [h1, h2, h3, h4, h5, e1, e2, e3, e4, e5]
+                | [_] => simp [h1, h2, h3, h4, h5, e1, e2, e3, e4, e5]
+                | [_, _] => simp [h1, h2, h3, h4, h5, e1, e2, e3, e4, e5]
+                | b :: c :: d :: r =>
+                  simp only [h1, h2, h3, h4, h5, e1, e2, e3, e4, e5, ih, decide_true, decide_false, Bool.and_true,
+                    Bool.and_false, if_true, if_false, Bool.false_eq_true]
+                  by_cases ha : a.toNat = 0xF0
+                  · simp [ha]
+                  · by_cases hb : a.toNat = 0xF4
+                    · simp [hb]
+                    · simp [ha, hb]
+              · have e1 : ¬ a.toNat ≤ 0x7F := by omega
+                have e2 : ¬ a.toNat ≤ 0xDF := by omega
+                have e3 : ¬ a.toNat ≤ 0xEF := by omega
+                have e4 : ¬ a.toNat ≤ 0xF4 := by omega
+                simp [h1, h2, h3, h4, h5, e1, e2, e3, e4]
+
+theorem utf8Valid_eq (bs : Bytes) : Spec.Ws.utf8Valid bs = utf8Valid bs := utf8ValidF_eq _ bs
+
+/-- A healthy state at a frame boundary. -/
+structure Bnd (s : RState) : Prop where
+  rem : s.readRemaining = 0
+  err : s.readErr = none
+  cs : s.closeSent = false
+  len0 : 0 ≤ s.readLength
+  len1 : s.readLength < 2 ^ 63
+  lim0 : 0 ≤ s.readLimit
+  lim1 : s.readLimit < 2 ^ 63
+
+/-- The largest message the reader accepts: the configured limit, or what an `int64` can count. -/
+def capOf (L : Int) : Nat := if L > 0 then L.toNat else 2 ^ 63 - 1
+
+/-- Same connection configuration. -/
+def Cfg (s s' : RState) : Prop :=
+  s'.isServer = s.isServer ∧ s'.decompress = s.decompress ∧ s'.readLimit = s.readLimit
+
+theorem sendCtl_open (op : Nat) (p : Bytes) (s : RState) (h : s.closeSent = false) :
+    sendCtl op p s = { s with replies := s.replies ++ [(op, p)], closeSent := op == CloseMessage } := by
+  simp [sendCtl, h]
+
+/-- the spec's violation predicate, instantiated for the model state -/
+def violOf (s : RState) (f : Frame) : Bool := Spec.Ws.violation (roleOf s.isServer) s.decompress (!s.readFinal) f
+
+theorem violOf_false {s : RState} {f : Frame} (hwf : f.WF) (h : violOf s f = false) :
+    hdrBad s.decompress s.readFinal f = false ∧ ¬ 2 ^ 63 ≤ f.len ∧ f.masked = s.isServer ∧
+    (f.opcode = 8 → Spec.Ws.closeBodyBad f.payload = false) := by
+  unfold violOf at h
+  rw [violation_eq s.isServer s.decompress s.readFinal f hwf] at h
+  simp only [Bool.or_eq_false_iff, Bool.and_eq_false_imp, beq_iff_eq, decide_eq_false_iff_not, bne_eq_false_iff_eq] at h
+  exact ⟨h.1.1.1, h.1.1.2, h.1.2, h.2⟩
+
+theorem tailF_ctl (h : Hdr) (hc : isControl h.frameType = true) : tailF h = controlFrame h := by
+  unfold tailF
+  have : (h.frameType == continuationFrame || isData h.frameType) = false := by
+    simp only [isControl, CloseMessage, PingMessage, PongMessage, Bool.or_eq_true, beq_iff_eq] at hc
+    simp only [continuationFrame, isData, TextMessage, BinaryMessage]
+    rcases hc with (h | h) | h <;> simp [h]
+  simp [this]
+
+theorem tailF_data (h : Hdr) (hc : (h.frameType == continuationFrame || isData h.frameType) = true) :
+    tailF h = dataFrame h := by
+  unfold tailF; simp [hc]
+
+theorem controlFrame_of_payload (h : Hdr) (s s1 : RState) (p : Bytes) (hp : readCtlPayload s = .ok p s1) :
+    controlFrame h s =
+      if h.frameType == PongMessage then .ok h.frameType s1
+      else if h.frameType == PingMessage then .ok h.frameType (sendCtl PongMessage p s1)
+      else handleCloseFrame p s1 := by
+  simp only [controlFrame, hp]
+
+/-- the control payload of a frame that passed the first stages -/
+theorem ctlPayload_afterHdr (s : RState) (f : Frame) (rest : Bytes) (hwf : f.WF) (hm : f.masked = s.isServer) :
+    readCtlPayload (afterHdr s f rest) = .ok f.payload { afterHdr s f rest with input := rest, readRemaining := 0 } :=
+  readCtlPayload_frame f hwf (afterHdr s f rest) rest rfl rfl
+    (by show f.masked = s.isServer; exact hm)
+    (by intro hm'; show (if f.masked then f.key else s.maskKey) = f.key; simp [hm'])
+
+theorem step_violation (s : RState) (f : Frame) (rest : Bytes) (hwf : f.WF) (hb : Bnd s)
+    (hin : s.input = serialise f ++ rest) (hv : violOf s f = true) :
+    ∃ s', advanceFrame s = .fail .proto s' ∧ s'.replies = s.replies ++ [(8, be 2 1002)] ∧ s'.closeSent = true := by
+  have hr : s.readRemaining ≤ 0 := by rw [hb.rem]; decide
+  have key : ProtoFail s (advanceFrame s) := by
+    unfold violOf at hv
+    rw [violation_eq s.isServer s.decompress s.readFinal f hwf] at hv
+    by_cases h1 : hdrBad s.decompress s.readFinal f = true
+    · exact (advanceFrame_frame s f rest hwf hr hin).1 (Or.inl h1)
+    · by_cases h2 : 2 ^ 63 ≤ f.len
+      · exact (advanceFrame_frame s f rest hwf hr hin).1 (Or.inr (Or.inl h2))
+      · by_cases h3 : f.masked = s.isServer
+        · -- close body
+          have h1' : hdrBad s.decompress s.readFinal f = false := by simpa using h1
+          have h4 : (f.opcode == 8 && Spec.Ws.closeBodyBad f.payload) = true := by
+            simpa [h1', h2, h3] using hv
+          simp only [Bool.and_eq_true, beq_iff_eq] at h4
+          rw [(advanceFrame_frame s f rest hwf hr hin).2 h1' h2 h3]
+          have hop : f.opcode = 8 := h4.1
+          have hctl : isControl (hdrOf f).frameType = true := by simp [hdrOf, hop, isControl, CloseMessage]
+          rw [tailF_ctl _ hctl, controlFrame_of_payload _ _ _ _ (ctlPayload_afterHdr s f rest hwf h3)]
+          have e1 : ((hdrOf f).frameType == PongMessage) = false := by simp [hdrOf, hop, PongMessage]
+          have e2 : ((hdrOf f).frameType == PingMessage) = false := by simp [hdrOf, hop, PingMessage]
+          simp only [e1, e2, Bool.false_eq_true, if_false]
+          have hbad := h4.2
+          simp only [Spec.Ws.closeBodyBad, Bool.or_eq_true, beq_iff_eq, Bool.and_eq_true, decide_eq_true_eq,
+            Bool.not_eq_true'] at hbad
+          unfold handleCloseFrame
+          rcases hbad with h | ⟨h2l, hcode | hutf⟩
+          · simp only [h, beq_self_eq_true, if_true]
+            exact protoErr_fail s _ rfl rfl
+          · have : ¬ (f.payload.length == 1) = true := by simp; omega
+            simp only [this, h2l, if_true]
+            rw [← closeCode_eq, hcode]
+            simp only [Bool.not_false, if_true]
+            exact protoErr_fail s _ rfl rfl
+          · have : ¬ (f.payload.length == 1) = true := by simp; omega
+            simp only [this, h2l, if_true]
+            rw [← utf8Valid_eq, hutf]
+            by_cases hc : (!isValidReceivedCloseCode (ofBE (f.payload.take 2))) = true
+            · simp only [hc, if_true]; exact protoErr_fail s _ rfl rfl
+            · simp only [hc, Bool.false_eq_true, if_false, Bool.not_false, if_true]
+              exact protoErr_fail s _ rfl rfl
+        · exact (advanceFrame_frame s f rest hwf hr hin).1 (Or.inr (Or.inr h3))
+  obtain ⟨s', h1, h2, h3⟩ := key
+  refine ⟨s', h1, ?_, h2⟩
+  rw [h3, hb.cs]; rfl
+
+/-- ping / pong: consumed, answered (ping), the state is again at a healthy boundary. -/
+theorem step_pingpong (s : RState) (f : Frame) (rest : Bytes) (hwf : f.WF) (hb : Bnd s)
+    (hin : s.input = serialise f ++ rest) (hv : violOf s f = false) (hop : f.opcode = 9 ∨ f.opcode = 10) :
+    ∃ s', advanceFrame s = .ok f.opcode s' ∧ s'.input = rest ∧
+      s'.replies = (if f.opcode = 9 then s.replies ++ [(10, f.payload)] else s.replies) ∧
+      Bnd s' ∧ Cfg s s' ∧ s'.readFinal = s.readFinal ∧ s'.readLength = s.readLength := by
+  have hr : s.readRemaining ≤ 0 := by rw [hb.rem]; decide
+  obtain ⟨h1, h2, h3, _⟩ := violOf_false hwf hv
+  rw [(advanceFrame_frame s f rest hwf hr hin).2 h1 h2 h3]
+  have hctl : isControl (hdrOf f).frameType = true := by
+    rcases hop with h | h <;> simp [hdrOf, h, isControl, CloseMessage, PingMessage, PongMessage]
+  rw [tailF_ctl _ hctl, controlFrame_of_payload _ _ _ _ (ctlPayload_afterHdr s f rest hwf h3)]
+  have hrf : (afterHdr s f rest).readFinal = s.readFinal := by
+    have : isControl f.opcode = true := hctl
+    simp [afterHdr, this]
+  rcases hop with h | h
+  · have e1 : ((hdrOf f).frameType == PongMessage) = false := by simp [hdrOf, h, PongMessage]
+    have e2 : ((hdrOf f).frameType == PingMessage) = true := by simp [hdrOf, h, PingMessage]
+    simp only [e1, e2, Bool.false_eq_true, if_false, if_true]
+    refine ⟨_, rfl, ?_, ?_, ?_, ?_, ?_, ?_⟩
+    · rw [sendCtl_open _ _ _ (by exact hb.cs)]
+    · rw [sendCtl_open _ _ _ (by exact hb.cs)]; simp [h, PongMessage, afterHdr]
+    · rw [sendCtl_open _ _ _ (by exact hb.cs)]
+      exact ⟨rfl, hb.err, by simp [PongMessage, CloseMessage], hb.len0, hb.len1, hb.lim0, hb.lim1⟩
+    · rw [sendCtl_open _ _ _ (by exact hb.cs)]; exact ⟨rfl, rfl, rfl⟩
+    · rw [sendCtl_open _ _ _ (by exact hb.cs)]; exact hrf
+    · rw [sendCtl_open _ _ _ (by exact hb.cs)]; rfl
+  · have e1 : ((hdrOf f).frameType == PongMessage) = true := by simp [hdrOf, h, PongMessage]
+    simp only [e1, if_true]
+    refine ⟨_, rfl, rfl, ?_, ⟨hb.rem ▸ rfl, hb.err, hb.cs, hb.len0, hb.len1, hb.lim0, hb.lim1⟩, ⟨rfl, rfl, rfl⟩, hrf, rfl⟩
+    simp [h, afterHdr]
+
+/-- a valid Close frame: the default handler echoes the status code, the read fails with the
+`*CloseError` carrying code and reason (1005 and no body for an empty Close). -/
+theorem step_close (s : RState) (f : Frame) (rest : Bytes) (hwf : f.WF) (hb : Bnd s)
+    (hin : s.input = serialise f ++ rest) (hv : violOf s f = false) (hop : f.opcode = 8) :
+    ∃ s', advanceFrame s =
+        .fail (if f.payload.length < 2 then .close 1005 [] else .close (ofBE (f.payload.take 2)) (f.payload.drop 2)) s' ∧
+      s'.replies = s.replies ++ [(8, if f.payload.length < 2 then [] else f.payload.take 2)] := by
+  have hr : s.readRemaining ≤ 0 := by rw [hb.rem]; decide
+  obtain ⟨h1, h2, h3, h4⟩ := violOf_false hwf hv
+  have hbody := h4 hop
+  rw [(advanceFrame_frame s f rest hwf hr hin).2 h1 h2 h3]
+  have hctl : isControl (hdrOf f).frameType = true := by simp [hdrOf, hop, isControl, CloseMessage]
+  rw [tailF_ctl _ hctl, controlFrame_of_payload _ _ _ _ (ctlPayload_afterHdr s f rest hwf h3)]
+  have e1 : ((hdrOf f).frameType == PongMessage) = false := by simp [hdrOf, hop, PongMessage]
+  have e2 : ((hdrOf f).frameType == PingMessage) = false := by simp [hdrOf, hop, PingMessage]
+  simp only [e1, e2, Bool.false_eq_true, if_false]
+  simp only [Spec.Ws.closeBodyBad, Bool.or_eq_false_iff, beq_eq_false_iff_ne, Bool.and_eq_false_imp,
+    decide_eq_true_eq, Bool.not_eq_false'] at hbody
+  obtain ⟨hne1, hrest⟩ := hbody
+  unfold handleCloseFrame
+  have hn1 : (f.payload.length == 1) = false := by simpa using hne1
+  simp only [hn1, Bool.false_eq_true, if_false]
+  by_cases h2l : 2 ≤ f.payload.length
+  · obtain ⟨hcode, hutf⟩ := hrest h2l
+    have hlt : ¬ f.payload.length < 2 := by omega
+    rw [closeCode_eq] at hcode
+    rw [utf8Valid_eq] at hutf
+    simp only [h2l, if_true, hcode, hutf, Bool.not_true, Bool.false_eq_true, if_false, hlt]
+    refine ⟨_, rfl, ?_⟩
+    rw [sendCtl_open _ _ _ (by exact hb.cs)]
+    have : be 2 (ofBE (f.payload.take 2)) = f.payload.take 2 :=
+      be_ofBE' (by rw [List.length_take]; omega)
+    simp [this, CloseMessage, afterHdr]
+  · have hlt : f.payload.length < 2 := by omega
+    simp only [h2l, if_false, hlt, if_true]
+    refine ⟨_, rfl, ?_⟩
+    rw [sendCtl_open _ _ _ (by exact hb.cs)]
+    simp [CloseMessage, afterHdr]
+
+theorem capOf_lt (L : Int) (h1 : L < 2 ^ 63) : capOf L < 2 ^ 63 := by
+  unfold capOf; split <;> omega
+
+/-- a data frame (text, binary, continuation) that violates nothing: refused with the limit error
+when the accumulated announced length exceeds the cap, otherwise accepted with the read state set
+up for its payload. `total` is the spec's running total. -/
+theorem step_data (s : RState) (f : Frame) (rest : Bytes) (hwf : f.WF) (hb : Bnd s)
+    (hin : s.input = serialise f ++ rest) (hv : violOf s f = false)
+    (hop : f.opcode = 0 ∨ f.opcode = 1 ∨ f.opcode = 2) (total : Nat) (ht : s.readLength = total) :
+    (capOf s.readLimit < total + f.len →
+      ∃ s', advanceFrame s = .fail .limit s' ∧ s'.replies = s.replies ++ [(8, be 2 1009)]) ∧
+    (total + f.len ≤ capOf s.readLimit →
+      ∃ s', advanceFrame s = .ok f.opcode s' ∧ s'.input = wirePayload f ++ rest ∧ s'.readRemaining = f.len ∧
+        s'.readFinal = f.fin ∧ s'.readLength = ((total + f.len : Nat) : Int) ∧
+        s'.readDecompress = (s.decompress && f.rsv1 && isData f.opcode) ∧ s'.replies = s.replies ∧
+        s'.readErr = none ∧ s'.closeSent = false ∧ Cfg s s' ∧
+        (s.isServer = true → s'.maskKey = f.key ∧ s'.maskPos = 0)) := by
+  have hr : s.readRemaining ≤ 0 := by rw [hb.rem]; decide
+  obtain ⟨h1, h2, h3, _⟩ := violOf_false hwf hv
+  rw [(advanceFrame_frame s f rest hwf hr hin).2 h1 h2 h3]
+  have hd : ((hdrOf f).frameType == continuationFrame || isData (hdrOf f).frameType) = true := by
+    rcases hop with h | h | h <;> simp [hdrOf, h, continuationFrame, isData, TextMessage, BinaryMessage]
+  rw [tailF_data _ hd]
+  have hnc : isControl f.opcode = false := by
+    rcases hop with h | h | h <;> simp [h, isControl, CloseMessage, PingMessage, PongMessage]
+  have hlen : f.len < 2 ^ 63 := by omega
+  have hsum : (afterHdr s f rest).readLength + (afterHdr s f rest).readRemaining = ((total + f.len : Nat) : Int) := by
+    show s.readLength + (f.len : Int) = _
+    rw [ht]; omega
+  have h0 := hb.len0; have h1' := hb.len1; have l0 := hb.lim0; have l1 := hb.lim1
+  rw [ht] at h0 h1'
+  obtain ⟨T, hT⟩ : ∃ T : Int, T = ((total + f.len : Nat) : Int) := ⟨_, rfl⟩
+  have hT' : T = (total : Int) + (f.len : Int) := by rw [hT]; omega
+  rw [← hT] at hsum
+  simp only [dataFrame, hsum]
+  have hlimEq : (afterHdr s f rest).readLimit = s.readLimit := rfl
+  rw [hlimEq]
+  have hcap : (s.readLimit > 0 → capOf s.readLimit = s.readLimit.toNat) ∧ (¬ s.readLimit > 0 → capOf s.readLimit = 2 ^ 63 - 1) := by
+    unfold capOf; constructor <;> intro h <;> simp [h]
+  refine ⟨fun hover => ?_, fun hfit => ?_⟩
+  · have hcond : (decide (wrap64 T < 0) || (decide (s.readLimit > 0) && decide (wrap64 T > s.readLimit))) = true := by
+      simp only [Bool.or_eq_true, Bool.and_eq_true, decide_eq_true_eq]
+      by_cases hl : s.readLimit > 0
+      · have := hcap.1 hl; unfold wrap64; omega
+      · have := hcap.2 hl; unfold wrap64; omega
+    simp only [hcond, if_true]
+    refine ⟨_, rfl, ?_⟩
+    rw [sendCtl_open _ _ _ (by exact hb.cs)]
+    simp [CloseMessage, CloseMessageTooBig, afterHdr]
+  · have hsmall : total + f.len < 2 ^ 63 := by have := capOf_lt s.readLimit l1; omega
+    have hcond : (decide (wrap64 T < 0) || (decide (s.readLimit > 0) && decide (wrap64 T > s.readLimit))) = false := by
+      simp only [Bool.or_eq_false_iff, Bool.and_eq_false_imp, decide_eq_false_iff_not, decide_eq_true_eq]
+      by_cases hl : s.readLimit > 0
+      · have := hcap.1 hl; unfold wrap64; omega
+      · have := hcap.2 hl; unfold wrap64; omega
+    simp only [hcond, Bool.false_eq_true, if_false]
+    refine ⟨_, rfl, rfl, rfl, ?_, ?_, rfl, rfl, hb.err, hb.cs, ⟨rfl, rfl, rfl⟩, ?_⟩
+    · simp [afterHdr, hnc]
+    · show wrap64 T = _; rw [← hT]; unfold wrap64; omega
+    · intro hsrv
+      have hm : f.masked = true := by rw [h3, hsrv]
+      simp [afterHdr, hm]
+
+/-- How the spec's way of stopping shows in the model's error. -/
+def EndErr : End → RErr → Prop
+  | .more, e => e = .ueof
+  | .fail st, e => (st = 1002 ∧ e = .proto) ∨ (st = 1009 ∧ e = .limit)
+  | .closed c r, e => e = .close c r
+
+theorem advanceFrame_empty (s : RState) (hr : s.readRemaining ≤ 0) (hin : s.input = []) :
+    advanceFrame s = .fail .ueof { s with input := [] } := by
+  rw [advanceFrame_unfold, bind_def, skipPrev_noop s hr]
+  simp only
+  rw [bind_def, readHdr_short s (by rw [hin]; decide)]
+
+/-- prepend replies to a receiver outcome -/
+def preReplies (rs : List (Nat × Bytes)) (r : RecvOut) : RecvOut := { r with replies := rs ++ r.replies }
+
+theorem opcode_cases {s : RState} {f : Frame} (hv : violOf s f = false) :
+    f.opcode = 0 ∨ f.opcode = 1 ∨ f.opcode = 2 ∨ f.opcode = 8 ∨ f.opcode = 9 ∨ f.opcode = 10 := by
+  unfold violOf Spec.Ws.violation at hv
+  simp only [Bool.or_eq_false_iff] at hv
+  have hk := hv.1.1.1.1.1.1.2
+  simp only [Bool.not_eq_false', Spec.Ws.knownOpcode, Spec.Ws.isDataStart, Spec.Ws.isControl, Bool.or_eq_true,
+    beq_iff_eq] at hk
+  omega
+
+theorem not_cont_idle {s : RState} {f : Frame} (hv : violOf s f = false) (hrf : s.readFinal = true) : f.opcode ≠ 0 := by
+  unfold violOf Spec.Ws.violation at hv
+  simp only [Bool.or_eq_false_iff] at hv
+  have := hv.1.1.1.1.2
+  intro h0
+  simp [h0, hrf] at this
+
+theorem not_start_inmsg {s : RState} {f : Frame} (hv : violOf s f = false) (hrf : s.readFinal = false) :
+    f.opcode ≠ 1 ∧ f.opcode ≠ 2 := by
+  unfold violOf Spec.Ws.violation at hv
+  simp only [Bool.or_eq_false_iff] at hv
+  have := hv.1.1.1.2
+  simp only [hrf, Bool.not_false, Bool.and_true, Spec.Ws.isDataStart, Bool.or_eq_false_iff, beq_eq_false_iff_ne] at this
+  exact this
+
+/-! one-step unfoldings of the spec receiver -/
+
+theorem recvFrom_viol (r : Role) (d : Bool) (cap : Nat) (st : Option Open) (f : Frame) (fs : List Frame)
+    (h : Spec.Ws.violation r d st.isSome f = true) :
+    recvFrom r d cap st (f :: fs) = { msgs := [], replies := [(8, be 2 1002)], fin := .fail 1002 } := by
+  simp [recvFrom, h]
+
+theorem recvFrom_ping (r : Role) (d : Bool) (cap : Nat) (st : Option Open) (f : Frame) (fs : List Frame)
+    (h : Spec.Ws.violation r d st.isSome f = false) (hop : f.opcode = 9) :
+    recvFrom r d cap st (f :: fs) =
+      { recvFrom r d cap st fs with replies := (10, f.payload) :: (recvFrom r d cap st fs).replies } := by
+  simp [recvFrom, h, hop]
+
+theorem recvFrom_pong (r : Role) (d : Bool) (cap : Nat) (st : Option Open) (f : Frame) (fs : List Frame)
+    (h : Spec.Ws.violation r d st.isSome f = false) (hop : f.opcode = 10) :
+    recvFrom r d cap st (f :: fs) = recvFrom r d cap st fs := by
+  simp [recvFrom, h, hop]
+
+theorem recvFrom_close (r : Role) (d : Bool) (cap : Nat) (st : Option Open) (f : Frame) (fs : List Frame)
+    (h : Spec.Ws.violation r d st.isSome f = false) (hop : f.opcode = 8) :
+    recvFrom r d cap st (f :: fs) =
+      if f.payload.length < 2 then { msgs := [], replies := [(8, [])], fin := .closed 1005 [] }
+      else { msgs := [], replies := [(8, f.payload.take 2)],
+             fin := .closed (ofBE (f.payload.take 2)) (f.payload.drop 2) } := by
+  simp [recvFrom, h, hop]
+
+/-- the open-message record after accepting data frame `f` -/
+def openAfter (st : Option Open) (f : Frame) : Open :=
+  match st with
+  | some o => { o with acc := o.acc ++ f.payload, total := o.total + f.len }
+  | none => { ty := f.opcode, compressed := f.rsv1, acc := f.payload, total := f.len }
+
+theorem recvFrom_data (r : Role) (d : Bool) (cap : Nat) (st : Option Open) (f : Frame) (fs : List Frame)
+    (h : Spec.Ws.violation r d st.isSome f = false) (hop : f.opcode = 0 ∨ f.opcode = 1 ∨ f.opcode = 2) :
+    recvFrom r d cap st (f :: fs) =
+      if cap < (openAfter st f).total then { msgs := [], replies := [(8, be 2 1009)], fin := .fail 1009 }
+      else if f.fin then
+        { recvFrom r d cap none fs with
+            msgs := { ty := (openAfter st f).ty, compressed := (openAfter st f).compressed, data := (openAfter st f).acc } ::
+              (recvFrom r d cap none fs).msgs }
+      else recvFrom r d cap (some (openAfter st f)) fs := by
+  have h9 : (f.opcode == 9) = false := by rcases hop with h | h | h <;> simp [h]
+  have h10 : (f.opcode == 10) = false := by rcases hop with h | h | h <;> simp [h]
+  have h8 : (f.opcode == 8) = false := by rcases hop with h | h | h <;> simp [h]
+  cases st with
+  | none =>
+    have h' : Spec.Ws.violation r d false f = false := h
+    simp only [recvFrom, h', h9, h10, h8, openAfter, Bool.false_eq_true, if_false, Option.isSome, List.nil_append, Nat.zero_add]
+    split <;> (try split) <;> simp_all
+  | some o =>
+    have h' : Spec.Ws.violation r d true f = false := h
+    simp only [recvFrom, h', h9, h10, h8, openAfter, Bool.false_eq_true, if_false, Option.isSome, List.nil_append, Nat.zero_add]
+    split <;> (try split) <;> simp_all
+
+/-- The model is positioned at the payload of frame `f` (header consumed and accepted). -/
+structure AtPayload (s : RState) (f : Frame) (tail : Bytes) : Prop where
+  input : s.input = wirePayload f ++ tail
+  rem : s.readRemaining = f.len
+  err : s.readErr = none
+  cs : s.closeSent = false
+  key : s.isServer = true → s.maskKey = f.key ∧ s.maskPos = 0
+  masked : f.masked = s.isServer
+
+abbrev specRecv (s : RState) := recvFrom (roleOf s.isServer) s.decompress (capOf s.readLimit)
+
+/-- **NextReader on frames.** From a healthy idle boundary, `nextReaderLoop` over the wire image of
+well-formed frames either stops exactly where and how the spec receiver stops (no message delivered
+meanwhile), or skips the same ping/pong frames (answering the pings) and stands at the payload of the
+data-start frame `f` the spec receiver is about to accept. -/
+theorem nextReaderLoop_frames (fs : List Frame) (hwf : ∀ f ∈ fs, f.WF) :
+    ∀ (s : RState) (fuel : Nat), Bnd s → s.readFinal = true → s.readLength = 0 →
+      s.input = serialiseAll fs → fs.length < fuel →
+      (∃ e s', nextReaderLoop fuel s = .fail e s' ∧ s'.readErr = some e ∧
+          (specRecv s none fs).msgs = [] ∧ s'.replies = s.replies ++ (specRecv s none fs).replies ∧
+          EndErr (specRecv s none fs).fin e) ∨
+      (∃ f rest s' rs, nextReaderLoop fuel s = .ok f.opcode s' ∧ rest.length < fs.length ∧
+          (∀ g ∈ f :: rest, g.WF) ∧ (f.opcode = 1 ∨ f.opcode = 2) ∧
+          specRecv s none fs = preReplies rs (specRecv s none (f :: rest)) ∧
+          s'.replies = s.replies ++ rs ∧ violOf s f = false ∧ f.len ≤ capOf s.readLimit ∧
+          AtPayload s' f (serialiseAll rest) ∧ s'.readFinal = f.fin ∧ s'.readLength = f.len ∧
+          s'.readDecompress = f.rsv1 ∧ Cfg s s' ∧ 0 ≤ s.readLimit ∧ s.readLimit < 2 ^ 63) := by
+  induction fs with
+  | nil =>
+    intro s fuel hb hrf hrl hin hfuel
+    left
+    obtain ⟨n, rfl⟩ : ∃ n, fuel = n + 1 := ⟨fuel - 1, by omega⟩
+    have hr : s.readRemaining ≤ 0 := by rw [hb.rem]; decide
+    refine ⟨.ueof, { s with input := [], readErr := some .ueof }, ?_, rfl, rfl, by simp [specRecv, recvFrom], rfl⟩
+    simp only [nextReaderLoop, hb.err, advanceFrame_empty s hr hin]
+  | cons f fs' ih =>
+    intro s fuel hb hrf hrl hin hfuel
+    obtain ⟨n, rfl⟩ : ∃ n, fuel = n + 1 := ⟨fuel - 1, by omega⟩
+    have hwf_f : f.WF := hwf f (by simp)
+    have hwf' : ∀ g ∈ fs', g.WF := fun g hg => hwf g (by simp [hg])
+    have hin' : s.input = serialise f ++ serialiseAll fs' := hin
+    have hvdef : Spec.Ws.violation (roleOf s.isServer) s.decompress (Option.isSome (none : Option Open)) f = violOf s f := by
+      simp [violOf, hrf]
+    by_cases hv : violOf s f = true
+    · left
+      obtain ⟨s', h1, h2, h3⟩ := step_violation s f _ hwf_f hb hin' hv
+      have hspec := recvFrom_viol (roleOf s.isServer) s.decompress (capOf s.readLimit) none f fs' (by rw [hvdef]; exact hv)
+      refine ⟨.proto, { s' with readErr := some .proto }, ?_, rfl, ?_, ?_, ?_⟩
+      · simp only [nextReaderLoop, hb.err, h1]
+      · show (recvFrom _ _ _ none (f :: fs')).msgs = []; rw [hspec]
+      · show s'.replies = s.replies ++ (recvFrom _ _ _ none (f :: fs')).replies; rw [hspec, h2]
+      · show EndErr (recvFrom _ _ _ none (f :: fs')).fin _; rw [hspec]; exact Or.inl ⟨rfl, rfl⟩
+    · have hv' : violOf s f = false := by simpa using hv
+      have hnv : Spec.Ws.violation (roleOf s.isServer) s.decompress (Option.isSome (none : Option Open)) f = false := by
+        rw [hvdef]; exact hv'
+      have hops := opcode_cases hv'
+      have hn0 := not_cont_idle hv' hrf
+      have hdata : (f.opcode = 1 ∨ f.opcode = 2) →
+          (∃ e s', nextReaderLoop (n + 1) s = .fail e s' ∧ s'.readErr = some e ∧
+              (specRecv s none (f :: fs')).msgs = [] ∧ s'.replies = s.replies ++ (specRecv s none (f :: fs')).replies ∧
+              EndErr (specRecv s none (f :: fs')).fin e) ∨
+          (∃ f0 rest s' rs, nextReaderLoop (n + 1) s = .ok f0.opcode s' ∧ rest.length < (f :: fs').length ∧
+              (∀ g ∈ f0 :: rest, g.WF) ∧ (f0.opcode = 1 ∨ f0.opcode = 2) ∧
+              specRecv s none (f :: fs') = preReplies rs (specRecv s none (f0 :: rest)) ∧
+              s'.replies = s.replies ++ rs ∧ violOf s f0 = false ∧ f0.len ≤ capOf s.readLimit ∧
+              AtPayload s' f0 (serialiseAll rest) ∧ s'.readFinal = f0.fin ∧ s'.readLength = f0.len ∧
+              s'.readDecompress = f0.rsv1 ∧ Cfg s s' ∧ 0 ≤ s.readLimit ∧ s.readLimit < 2 ^ 63) := by
+        intro h12
+        have hop3 : f.opcode = 0 ∨ f.opcode = 1 ∨ f.opcode = 2 := Or.inr h12
+        obtain ⟨hover, hfit⟩ := step_data s f (serialiseAll fs') hwf_f hb hin' hv' hop3 0 (by rw [hrl]; rfl)
+        have hspec := recvFrom_data (roleOf s.isServer) s.decompress (capOf s.readLimit) none f fs' hnv hop3
+        have htot : (openAfter none f).total = f.len := rfl
+        by_cases hc : capOf s.readLimit < 0 + f.len
+        · left
+          obtain ⟨s', h1, h2⟩ := hover hc
+          have hc' : capOf s.readLimit < (openAfter none f).total := by rw [htot]; omega
+          rw [if_pos hc'] at hspec
+          refine ⟨.limit, { s' with readErr := some .limit }, ?_, rfl, ?_, ?_, ?_⟩
+          · simp only [nextReaderLoop, hb.err, h1]
+          · show (recvFrom _ _ _ none (f :: fs')).msgs = []; rw [hspec]
+          · show s'.replies = s.replies ++ (recvFrom _ _ _ none (f :: fs')).replies; rw [hspec, h2]
+          · show EndErr (recvFrom _ _ _ none (f :: fs')).fin _; rw [hspec]; exact Or.inr ⟨rfl, rfl⟩
+        · right
+          obtain ⟨s', h1, h2, h3, h4, h5, h6, h7, h8, h9, h10, h11⟩ := hfit (by omega)
+          have hisdata : isData f.opcode = true := by rcases h12 with h | h <;> simp [h, isData, TextMessage, BinaryMessage]
+          have hty : (f.opcode == TextMessage || f.opcode == BinaryMessage) = true := by
+            rcases h12 with h | h <;> simp [h, TextMessage, BinaryMessage]
+          have hm : f.masked = s.isServer := (violOf_false hwf_f hv').2.2.1
+          refine ⟨f, fs', s', [], ?_, by simp, hwf, h12, by simp [preReplies], by simp [h7], hv', by omega,
+            ⟨h2, h3, h8, h9, fun hs => h11 (h10.1 ▸ hs), by rw [hm, h10.1]⟩, h4, by rw [h5]; simp, ?_, h10, hb.lim0, hb.lim1⟩
+          · simp only [nextReaderLoop, hb.err, h1, hty, if_true]
+          · rw [h6, hisdata, Bool.and_true]
+            -- no violation: RSV1 only with negotiated deflate
+            have hvv := hv'
+            unfold violOf Spec.Ws.violation at hvv
+            simp only [Bool.or_eq_false_iff] at hvv
+            have hr1 := hvv.1.1.1.1.1.1.1.2
+            have hds : Spec.Ws.isDataStart f.opcode = true := by rcases h12 with h | h <;> simp [h, Spec.Ws.isDataStart]
+            cases hr : f.rsv1
+            · simp
+            · simp [hr, hds] at hr1; simp [hr1]
+      rcases hops with h | h | h | h | h | h
+      · exact absurd h hn0
+      · exact hdata (Or.inl h)
+      · exact hdata (Or.inr h)
+      · -- close
+        left
+        obtain ⟨s', h1, h2⟩ := step_close s f _ hwf_f hb hin' hv' h
+        have hspec := recvFrom_close (roleOf s.isServer) s.decompress (capOf s.readLimit) none f fs' hnv h
+        by_cases hl : f.payload.length < 2
+        · simp only [hl, if_true] at h1 h2 hspec
+          refine ⟨.close 1005 [], { s' with readErr := some (.close 1005 []) }, ?_, rfl, ?_, ?_, ?_⟩
+          · simp only [nextReaderLoop, hb.err, h1]
+          · show (recvFrom _ _ _ none (f :: fs')).msgs = []; rw [hspec]
+          · show s'.replies = s.replies ++ (recvFrom _ _ _ none (f :: fs')).replies; rw [hspec, h2]
+          · show EndErr (recvFrom _ _ _ none (f :: fs')).fin _; rw [hspec]; rfl
+        · simp only [hl, if_false] at h1 h2 hspec
+          refine ⟨.close (ofBE (f.payload.take 2)) (f.payload.drop 2),
+            { s' with readErr := some (.close (ofBE (f.payload.take 2)) (f.payload.drop 2)) }, ?_, rfl, ?_, ?_, ?_⟩
+          · simp only [nextReaderLoop, hb.err, h1]
+          · show (recvFrom _ _ _ none (f :: fs')).msgs = []; rw [hspec]
+          · show s'.replies = s.replies ++ (recvFrom _ _ _ none (f :: fs')).replies; rw [hspec, h2]
+          · show EndErr (recvFrom _ _ _ none (f :: fs')).fin _; rw [hspec]; rfl
+      · -- ping
+        obtain ⟨s1, h1, h2, h3, h4, h5, h6, h7⟩ := step_pingpong s f _ hwf_f hb hin' hv' (Or.inl h)
+        have hspec := recvFrom_ping (roleOf s.isServer) s.decompress (capOf s.readLimit) none f fs' hnv h
+        have hloop : nextReaderLoop (n + 1) s = nextReaderLoop n s1 := by
+          simp only [nextReaderLoop, hb.err, h1, h, TextMessage, BinaryMessage]; rfl
+        have hcfg : specRecv s1 = specRecv s := by
+          unfold specRecv; rw [h5.1, h5.2.1, h5.2.2]
+        have hih := ih hwf' s1 n h4 (by rw [h6, hrf]) (by rw [h7, hrl]) h2 (by simp at hfuel; omega)
+        rw [hcfg] at hih
+        simp only [h, if_true] at h3
+        rcases hih with ⟨e, s', a1, a2, a3, a4, a5⟩ | ⟨f0, rest, s', rs, a1, a2, a3, a4, a5, a6, a7, a8, a9, a10, a11, a12, a13, a14, a15⟩
+        · left
+          refine ⟨e, s', by rw [hloop]; exact a1, a2, ?_, ?_, ?_⟩
+          · show (recvFrom _ _ _ none (f :: fs')).msgs = []; rw [hspec]; exact a3
+          · show s'.replies = s.replies ++ (recvFrom _ _ _ none (f :: fs')).replies
+            rw [hspec, a4, h3]; simp [specRecv]
+          · show EndErr (recvFrom _ _ _ none (f :: fs')).fin _; rw [hspec]; exact a5
+        · right
+          have hv0 : violOf s f0 = false := by
+            have : violOf s1 f0 = violOf s f0 := by unfold violOf; rw [h5.1, h5.2.1, h6]
+            rw [← this]; exact a7
+          refine ⟨f0, rest, s', (10, f.payload) :: rs, by rw [hloop]; exact a1, by simp; omega, a3, a4, ?_, ?_, hv0,
+            by rw [← h5.2.2]; exact a8, a9, a10, a11, a12, ⟨a13.1.trans h5.1, a13.2.1.trans h5.2.1, a13.2.2.trans h5.2.2⟩,
+            hb.lim0, hb.lim1⟩
+          · show recvFrom _ _ _ none (f :: fs') = _
+            rw [hspec]
+            have : recvFrom (roleOf s.isServer) s.decompress (capOf s.readLimit) none fs' =
+                preReplies rs (recvFrom (roleOf s.isServer) s.decompress (capOf s.readLimit) none (f0 :: rest)) := a5
+            rw [this]; simp [preReplies]
+          · rw [a6, h3]; simp
+      · -- pong
+        obtain ⟨s1, h1, h2, h3, h4, h5, h6, h7⟩ := step_pingpong s f _ hwf_f hb hin' hv' (Or.inr h)
+        have hspec := recvFrom_pong (roleOf s.isServer) s.decompress (capOf s.readLimit) none f fs' hnv h
+        have hloop : nextReaderLoop (n + 1) s = nextReaderLoop n s1 := by
+          simp only [nextReaderLoop, hb.err, h1, h, TextMessage, BinaryMessage]; rfl
+        have hcfg : specRecv s1 = specRecv s := by
+          unfold specRecv; rw [h5.1, h5.2.1, h5.2.2]
+        have hih := ih hwf' s1 n h4 (by rw [h6, hrf]) (by rw [h7, hrl]) h2 (by simp at hfuel; omega)
+        rw [hcfg] at hih
+        have h3' : s1.replies = s.replies := by simpa [h] using h3
+        rcases hih with ⟨e, s', a1, a2, a3, a4, a5⟩ | ⟨f0, rest, s', rs, a1, a2, a3, a4, a5, a6, a7, a8, a9, a10, a11, a12, a13, a14, a15⟩
+        · left
+          refine ⟨e, s', by rw [hloop]; exact a1, a2, ?_, ?_, ?_⟩
+          · show (recvFrom _ _ _ none (f :: fs')).msgs = []; rw [hspec]; exact a3
+          · show s'.replies = s.replies ++ (recvFrom _ _ _ none (f :: fs')).replies
+            rw [hspec, a4, h3']
+          · show EndErr (recvFrom _ _ _ none (f :: fs')).fin _; rw [hspec]; exact a5
+        · right
+          have hv0 : violOf s f0 = false := by
+            have : violOf s1 f0 = violOf s f0 := by unfold violOf; rw [h5.1, h5.2.1, h6]
+            rw [← this]; exact a7
+          refine ⟨f0, rest, s', rs, by rw [hloop]; exact a1, by simp; omega, a3, a4, ?_, by rw [a6, h3'], hv0,
+            by rw [← h5.2.2]; exact a8, a9, a10, a11, a12, ⟨a13.1.trans h5.1, a13.2.1.trans h5.2.1, a13.2.2.trans h5.2.2⟩,
+            hb.lim0, hb.lim1⟩
+          show recvFrom _ _ _ none (f :: fs') = _
+          rw [hspec]; exact a5
+
+/-- **Payload.** At the payload of an accepted frame, `ReadAll` hands out exactly the frame's
+(unmasked) payload and stands at the frame boundary. -/
+theorem readAllLoop_payload (s : RState) (f : Frame) (tail : Bytes) (hwf : f.WF) (hp : AtPayload s f tail)
+    (fuel : Nat) (acc : Bytes) :
+    ∃ sb, readAllLoop (fuel + 1) acc s = readAllLoop (fuel + (if f.len = 0 then 1 else 0)) (acc ++ f.payload) sb ∧
+      sb.input = tail ∧ sb.readRemaining = 0 ∧ sb.readErr = none ∧ sb.closeSent = false ∧
+      sb.readFinal = s.readFinal ∧ sb.readLength = s.readLength ∧ sb.replies = s.replies ∧ Cfg s sb ∧
+      sb.readDecompress = s.readDecompress := by
+  obtain ⟨_, _, _, _, _, _, hpl⟩ := hwf
+  have hwl : (wirePayload f).length = f.len := by rw [wirePayload_length, hpl]
+  by_cases h0 : f.len = 0
+  · have hp0 : f.payload = [] := List.eq_nil_of_length_eq_zero (by rw [hpl, h0])
+    have hw0 : wirePayload f = [] := List.eq_nil_of_length_eq_zero (by rw [hwl, h0])
+    refine ⟨s, by simp [h0, hp0], by rw [hp.input, hw0]; rfl, by rw [hp.rem, h0]; rfl, hp.err, hp.cs, rfl, rfl, rfl,
+      ⟨rfl, rfl, rfl⟩, rfl⟩
+  · have hpos : s.readRemaining > 0 := by rw [hp.rem]; omega
+    have hn : s.readRemaining.toNat = f.len := by rw [hp.rem]; simp
+    have htake : s.input.take f.len = wirePayload f := by rw [hp.input]; exact take_append_len _ _ hwl
+    have hdrop : s.input.drop f.len = tail := by rw [hp.input]; exact drop_append_len _ _ hwl
+    have hdata : (if s.isServer then maskBytes s.maskKey s.maskPos (wirePayload f) else wirePayload f) = f.payload := by
+      cases hs : s.isServer
+      · have hm : f.masked = false := by rw [hp.masked, hs]
+        simp [wirePayload, hm]
+      · have hm : f.masked = true := by rw [hp.masked, hs]
+        obtain ⟨hk, hpos0⟩ := hp.key hs
+        simp [wirePayload, hm, hk, hpos0, maskBytes_eq_xorMask, xorMask_involution]
+    refine ⟨{ s with input := tail, readRemaining := s.readRemaining - (f.len : Int), maskPos := (s.maskPos + f.len) % 4 },
+      ?_, rfl, by show s.readRemaining - (f.len : Int) = 0; rw [hp.rem]; omega, hp.err, hp.cs, rfl, rfl, rfl,
+      ⟨rfl, rfl, rfl⟩, rfl⟩
+    simp only [h0, if_false, Nat.add_zero]
+    have hlen : (s.input.take s.readRemaining.toNat).length = f.len := by rw [hn, htake, hwl]
+    have hne : (f.len == 0) = false := by simpa using h0
+    simp only [readAllLoop, hp.err, hpos, if_true, hn, htake, hwl, hne, Bool.false_eq_true, if_false, hdrop, hdata]
+
+/-- the spec message record as the model delivers it -/
+def conv (m : Spec.Ws.Msg) : Msg := { ty := m.ty, compressed := m.compressed, data := m.data }
+
+theorem violOf_cfg {s s1 : RState} (h : Cfg s s1) (hrf : s1.readFinal = s.readFinal) (f : Frame) :
+    violOf s1 f = violOf s f := by
+  unfold violOf; rw [h.1, h.2.1, hrf]
+
+theorem specRecv_cfg {s s1 : RState} (h : Cfg s s1) : specRecv s1 = specRecv s := by
+  unfold specRecv; rw [h.1, h.2.1, h.2.2]
+
+theorem readAllLoop_finished (k : Nat) (acc : Bytes) (s : RState) (he : s.readErr = none)
+    (hr : s.readRemaining = 0) (hf : s.readFinal = true) : readAllLoop (k + 1) acc s = .ok (acc, none) s := by
+  have hnp : ¬ s.readRemaining > 0 := by rw [hr]; decide
+  rw [readAllLoop]
+  simp only [he, hnp, if_false, hf, if_true]
+
+/-- **ReadAll on frames.** Inside a fragmented message (at a frame boundary, `o` = the spec's open
+record), `ReadAll` over the wire image of well-formed frames either stops where and how the spec
+receiver stops, or completes the message with exactly the spec's payload and stands idle in front of
+the remaining frames. -/
+theorem readAllLoop_frames (fs : List Frame) (hwf : ∀ f ∈ fs, f.WF) :
+    ∀ (s : RState) (fuel : Nat) (o : Open), Bnd s → s.readFinal = false → s.readLength = o.total →
+      s.input = serialiseAll fs → 2 * fs.length + 2 ≤ fuel →
+      (∃ data e s', readAllLoop fuel o.acc s = .ok (data, some e) s' ∧ s'.readErr = some e ∧
+          (specRecv s (some o) fs).msgs = [] ∧ s'.replies = s.replies ++ (specRecv s (some o) fs).replies ∧
+          EndErr (specRecv s (some o) fs).fin e) ∨
+      (∃ data rest s' rs, readAllLoop fuel o.acc s = .ok (data, none) s' ∧ rest.length < fs.length ∧
+          (∀ g ∈ rest, g.WF) ∧
+          specRecv s (some o) fs =
+            { msgs := { ty := o.ty, compressed := o.compressed, data := data } :: (specRecv s none rest).msgs,
+              replies := rs ++ (specRecv s none rest).replies, fin := (specRecv s none rest).fin } ∧
+          s'.replies = s.replies ++ rs ∧ Bnd s' ∧ s'.readFinal = true ∧ s'.input = serialiseAll rest ∧ Cfg s s') := by
+  induction fs with
+  | nil =>
+    intro s fuel o hb hrf hrl hin hfuel
+    left
+    obtain ⟨n, rfl⟩ : ∃ n, fuel = n + 2 := ⟨fuel - 2, by omega⟩
+    have hr : s.readRemaining ≤ 0 := by rw [hb.rem]; decide
+    have hnp : ¬ s.readRemaining > 0 := by rw [hb.rem]; decide
+    refine ⟨o.acc, .ueof, { s with input := [], readErr := some .ueof }, ?_, rfl, rfl, by simp [specRecv, recvFrom], rfl⟩
+    rw [readAllLoop]
+    simp only [hb.err, hnp, if_false, hrf, Bool.false_eq_true, advanceFrame_empty s hr hin]
+    rw [readAllLoop_err n o.acc _ .ueof rfl]
+    simp
+  | cons f fs' ih =>
+    intro s fuel o hb hrf hrl hin hfuel
+    obtain ⟨n, rfl⟩ : ∃ n, fuel = n + 2 := ⟨fuel - 2, by simp at hfuel; omega⟩
+    have hwf_f : f.WF := hwf f (by simp)
+    have hwf' : ∀ g ∈ fs', g.WF := fun g hg => hwf g (by simp [hg])
+    have hin' : s.input = serialise f ++ serialiseAll fs' := hin
+    have hnp : ¬ s.readRemaining > 0 := by rw [hb.rem]; decide
+    have hvdef : Spec.Ws.violation (roleOf s.isServer) s.decompress (Option.isSome (some o)) f = violOf s f := by
+      simp [violOf, hrf]
+    -- one loop iteration = one `advanceFrame`
+    have hiter : readAllLoop (n + 2) o.acc s =
+        match advanceFrame s with
+        | .panic => .panic
+        | .fail e s' => readAllLoop (n + 1) o.acc { s' with readErr := some e }
+        | .ok ft s' =>
+          if ft == TextMessage || ft == BinaryMessage then readAllLoop (n + 1) o.acc { s' with readErr := some .internal }
+          else readAllLoop (n + 1) o.acc s' := by
+      rw [readAllLoop]
+      simp only [hb.err, hnp, if_false, hrf, Bool.false_eq_true]
+      generalize advanceFrame s = r
+      cases r <;> rfl
+    have hfail : ∀ (e : RErr) (s' : RState), e ≠ .eof → advanceFrame s = .fail e s' →
+        readAllLoop (n + 2) o.acc s = .ok (o.acc, some e) { s' with readErr := some e } := by
+      intro e s' hne h1
+      rw [hiter, h1]
+      simp only
+      rw [readAllLoop_err n o.acc _ e rfl]
+      simp [hne]
+    by_cases hv : violOf s f = true
+    · left
+      obtain ⟨s', h1, h2, h3⟩ := step_violation s f _ hwf_f hb hin' hv
+      have hspec := recvFrom_viol (roleOf s.isServer) s.decompress (capOf s.readLimit) (some o) f fs' (by rw [hvdef]; exact hv)
+      refine ⟨o.acc, .proto, _, hfail .proto s' (by decide) h1, rfl, ?_, ?_, ?_⟩
+      · show (recvFrom _ _ _ (some o) (f :: fs')).msgs = []; rw [hspec]
+      · show s'.replies = s.replies ++ (recvFrom _ _ _ (some o) (f :: fs')).replies; rw [hspec, h2]
+      · show EndErr (recvFrom _ _ _ (some o) (f :: fs')).fin _; rw [hspec]; exact Or.inl ⟨rfl, rfl⟩
+    · have hv' : violOf s f = false := by simpa using hv
+      have hnv : Spec.Ws.violation (roleOf s.isServer) s.decompress (Option.isSome (some o)) f = false := by
+        rw [hvdef]; exact hv'
+      have hops := opcode_cases hv'
+      have hn12 := not_start_inmsg hv' hrf
+      rcases hops with h | h | h | h | h | h
+      · -- continuation
+        have hop3 : f.opcode = 0 ∨ f.opcode = 1 ∨ f.opcode = 2 := Or.inl h
+        obtain ⟨hover, hfit⟩ := step_data s f (serialiseAll fs') hwf_f hb hin' hv' hop3 o.total hrl
+        have hspec := recvFrom_data (roleOf s.isServer) s.decompress (capOf s.readLimit) (some o) f fs' hnv hop3
+        have htot : (openAfter (some o) f).total = o.total + f.len := rfl
+        by_cases hc : capOf s.readLimit < o.total + f.len
+        · left
+          obtain ⟨s', h1, h2⟩ := hover hc
+          rw [if_pos (by rw [htot]; exact hc)] at hspec
+          refine ⟨o.acc, .limit, _, hfail .limit s' (by decide) h1, rfl, ?_, ?_, ?_⟩
+          · show (recvFrom _ _ _ (some o) (f :: fs')).msgs = []; rw [hspec]
+          · show s'.replies = s.replies ++ (recvFrom _ _ _ (some o) (f :: fs')).replies; rw [hspec, h2]
+          · show EndErr (recvFrom _ _ _ (some o) (f :: fs')).fin _; rw [hspec]; exact Or.inr ⟨rfl, rfl⟩
+        · obtain ⟨s1, h1, h2, h3, h4, h5, h6, h7, h8, h9, h10, h11⟩ := hfit (by omega)
+          rw [if_neg (by rw [htot]; exact hc)] at hspec
+          have hm : f.masked = s.isServer := (violOf_false hwf_f hv').2.2.1
+          have hat : AtPayload s1 f (serialiseAll fs') :=
+            ⟨h2, h3, h8, h9, fun hs => h11 (h10.1 ▸ hs), by rw [hm, h10.1]⟩
+          have hstep : readAllLoop (n + 2) o.acc s = readAllLoop (n + 1) o.acc s1 := by
+            rw [hiter, h1]; simp [h, TextMessage, BinaryMessage]
+          obtain ⟨sb, p1, p2, p3, p4, p5, p6, p7, p8, p9, p10⟩ := readAllLoop_payload s1 f (serialiseAll fs') hwf_f hat n o.acc
+          have hbb : Bnd sb := by
+            refine ⟨p3, p4, p5, ?_, ?_, ?_, ?_⟩
+            · rw [p7, h5]; omega
+            · rw [p7, h5]; have := capOf_lt s.readLimit hb.lim1; omega
+            · rw [p9.2.2, h10.2.2]; exact hb.lim0
+            · rw [p9.2.2, h10.2.2]; exact hb.lim1
+          have hcfg : Cfg s sb := ⟨p9.1.trans h10.1, p9.2.1.trans h10.2.1, p9.2.2.trans h10.2.2⟩
+          have hn2 : 2 * fs'.length + 2 ≤ n := by simp at hfuel; omega
+          have hrepl : sb.replies = s.replies := by rw [p8, h7]
+          by_cases hfin : f.fin = true
+          · right
+            rw [if_pos hfin] at hspec
+            obtain ⟨k, hk⟩ : ∃ k, n + (if f.len = 0 then 1 else 0) = k + 1 := ⟨n + (if f.len = 0 then 1 else 0) - 1, by omega⟩
+            have hret : readAllLoop (n + 2) o.acc s = .ok (o.acc ++ f.payload, none) sb := by
+              rw [hstep, p1, hk]
+              exact readAllLoop_finished k _ sb p4 p3 (by rw [p6, h4]; exact hfin)
+            refine ⟨o.acc ++ f.payload, fs', sb, [], hret, by simp, hwf', ?_, by simp [hrepl], hbb,
+              by rw [p6, h4]; exact hfin, p2, hcfg⟩
+            show recvFrom _ _ _ (some o) (f :: fs') = _
+            rw [hspec]; simp [specRecv, openAfter]
+          · rw [if_neg hfin] at hspec
+            have hfin' : f.fin = false := by simpa using hfin
+            have hih := ih hwf' sb (n + (if f.len = 0 then 1 else 0)) (openAfter (some o) f) hbb
+              (by rw [p6, h4]; exact hfin') (by rw [p7, h5]; rfl) p2 (by omega)
+            rw [specRecv_cfg hcfg] at hih
+            have hloop : readAllLoop (n + 2) o.acc s =
+                readAllLoop (n + (if f.len = 0 then 1 else 0)) (openAfter (some o) f).acc sb := by
+              rw [hstep, p1]; rfl
+            rcases hih with ⟨data, e, s', a1, a2, a3, a4, a5⟩ | ⟨data, rest, s', rs, a1, a2, a3, a4, a5, a6, a7, a8, a9⟩
+            · left
+              refine ⟨data, e, s', by rw [hloop]; exact a1, a2, ?_, ?_, ?_⟩
+              · show (recvFrom _ _ _ (some o) (f :: fs')).msgs = []; rw [hspec]; exact a3
+              · show s'.replies = s.replies ++ (recvFrom _ _ _ (some o) (f :: fs')).replies
+                rw [hspec, a4, hrepl]
+              · show EndErr (recvFrom _ _ _ (some o) (f :: fs')).fin _; rw [hspec]; exact a5
+            · right
+              refine ⟨data, rest, s', rs, by rw [hloop]; exact a1, by simp; omega, a3, ?_, by rw [a5, hrepl], a6, a7, a8,
+                ⟨a9.1.trans hcfg.1, a9.2.1.trans hcfg.2.1, a9.2.2.trans hcfg.2.2⟩⟩
+              show recvFrom _ _ _ (some o) (f :: fs') = _
+              rw [hspec]; exact a4
+      · exact absurd h hn12.1
+      · exact absurd h hn12.2
+      · -- close
+        left
+        obtain ⟨s', h1, h2⟩ := step_close s f _ hwf_f hb hin' hv' h
+        have hspec := recvFrom_close (roleOf s.isServer) s.decompress (capOf s.readLimit) (some o) f fs' hnv h
+        by_cases hl : f.payload.length < 2
+        · simp only [hl, if_true] at h1 h2 hspec
+          refine ⟨o.acc, .close 1005 [], _, hfail _ s' (by intro hh; cases hh) h1, rfl, ?_, ?_, ?_⟩
+          · show (recvFrom _ _ _ (some o) (f :: fs')).msgs = []; rw [hspec]
+          · show s'.replies = s.replies ++ (recvFrom _ _ _ (some o) (f :: fs')).replies; rw [hspec, h2]
+          · show EndErr (recvFrom _ _ _ (some o) (f :: fs')).fin _; rw [hspec]; rfl
+        · simp only [hl, if_false] at h1 h2 hspec
+          refine ⟨o.acc, .close (ofBE (f.payload.take 2)) (f.payload.drop 2), _, hfail _ s' (by intro hh; cases hh) h1, rfl, ?_, ?_, ?_⟩
+          · show (recvFrom _ _ _ (some o) (f :: fs')).msgs = []; rw [hspec]
+          · show s'.replies = s.replies ++ (recvFrom _ _ _ (some o) (f :: fs')).replies; rw [hspec, h2]
+          · show EndErr (recvFrom _ _ _ (some o) (f :: fs')).fin _; rw [hspec]; rfl
+      · -- ping
+        obtain ⟨s1, h1, h2, h3, h4, h5, h6, h7⟩ := step_pingpong s f _ hwf_f hb hin' hv' (Or.inl h)
+        have hspec := recvFrom_ping (roleOf s.isServer) s.decompress (capOf s.readLimit) (some o) f fs' hnv h
+        have hloop : readAllLoop (n + 2) o.acc s = readAllLoop (n + 1) o.acc s1 := by
+          rw [hiter, h1]; simp [h, TextMessage, BinaryMessage]
+        have hih := ih hwf' s1 (n + 1) o h4 (by rw [h6, hrf]) (by rw [h7, hrl]) h2 (by simp at hfuel; omega)
+        rw [specRecv_cfg h5] at hih
+        simp only [h, if_true] at h3
+        rcases hih with ⟨data, e, s', a1, a2, a3, a4, a5⟩ | ⟨data, rest, s', rs, a1, a2, a3, a4, a5, a6, a7, a8, a9⟩
+        · left
+          refine ⟨data, e, s', by rw [hloop]; exact a1, a2, ?_, ?_, ?_⟩
+          · show (recvFrom _ _ _ (some o) (f :: fs')).msgs = []; rw [hspec]; exact a3
+          · show s'.replies = s.replies ++ (recvFrom _ _ _ (some o) (f :: fs')).replies
+            rw [hspec, a4, h3]; simp [specRecv]
+          · show EndErr (recvFrom _ _ _ (some o) (f :: fs')).fin _; rw [hspec]; exact a5
+        · right
+          refine ⟨data, rest, s', (10, f.payload) :: rs, by rw [hloop]; exact a1, by simp; omega, a3, ?_,
+            by rw [a5, h3]; simp, a6, a7, a8, ⟨a9.1.trans h5.1, a9.2.1.trans h5.2.1, a9.2.2.trans h5.2.2⟩⟩
+          show recvFrom _ _ _ (some o) (f :: fs') = _
+          rw [hspec]
+          have : recvFrom (roleOf s.isServer) s.decompress (capOf s.readLimit) (some o) fs' = _ := a4
+          rw [this]; simp
+      · -- pong
+        obtain ⟨s1, h1, h2, h3, h4, h5, h6, h7⟩ := step_pingpong s f _ hwf_f hb hin' hv' (Or.inr h)
+        have hspec := recvFrom_pong (roleOf s.isServer) s.decompress (capOf s.readLimit) (some o) f fs' hnv h
+        have hloop : readAllLoop (n + 2) o.acc s = readAllLoop (n + 1) o.acc s1 := by
+          rw [hiter, h1]; simp [h, TextMessage, BinaryMessage]
+        have hih := ih hwf' s1 (n + 1) o h4 (by rw [h6, hrf]) (by rw [h7, hrl]) h2 (by simp at hfuel; omega)
+        rw [specRecv_cfg h5] at hih
+        have h3' : s1.replies = s.replies := by simpa [h] using h3
+        rcases hih with ⟨data, e, s', a1, a2, a3, a4, a5⟩ | ⟨data, rest, s', rs, a1, a2, a3, a4, a5, a6, a7, a8, a9⟩
+        · left
+          refine ⟨data, e, s', by rw [hloop]; exact a1, a2, ?_, ?_, ?_⟩
+          · show (recvFrom _ _ _ (some o) (f :: fs')).msgs = []; rw [hspec]; exact a3
+          · show s'.replies = s.replies ++ (recvFrom _ _ _ (some o) (f :: fs')).replies
+            rw [hspec, a4, h3']
+          · show EndErr (recvFrom _ _ _ (some o) (f :: fs')).fin _; rw [hspec]; exact a5
+        · right
+          refine ⟨data, rest, s', rs, by rw [hloop]; exact a1, by simp; omega, a3, ?_, by rw [a5, h3'], a6, a7, a8,
+            ⟨a9.1.trans h5.1, a9.2.1.trans h5.2.1, a9.2.2.trans h5.2.2⟩⟩
+          show recvFrom _ _ _ (some o) (f :: fs') = _
+          rw [hspec]; exact a4
+
+theorem serialise_length (f : Frame) : 2 ≤ (serialise f).length := by simp [serialise]
+
+theorem serialiseAll_length (fs : List Frame) : 2 * fs.length ≤ (serialiseAll fs).length := by
+  induction fs with
+  | nil => simp [serialiseAll]
+  | cons f fs ih =>
+    have := serialise_length f
+    simp only [serialiseAll, List.length_append, List.length_cons]; omega
+
+/-- **Session refinement.** Over the wire image of any well-formed frame sequence, the session loop
+delivers exactly the spec receiver's messages, writes exactly its replies, and ends with the error
+that corresponds to the way the spec receiver stops; that error is latched. -/
+theorem sessionLoop_frames (n : Nat) : ∀ (fs : List Frame), fs.length ≤ n → (∀ f ∈ fs, f.WF) →
+    ∀ (s : RState) (fuel : Nat) (acc : List Msg), Bnd s → s.readFinal = true → s.input = serialiseAll fs →
+      s.input.length + 2 ≤ fuel →
+      ∃ t, sessionLoop fuel s acc = some t ∧ t.msgs = acc ++ (specRecv s none fs).msgs.map conv ∧
+        t.final.replies = s.replies ++ (specRecv s none fs).replies ∧
+        EndErr (specRecv s none fs).fin t.err ∧ t.final.readErr = some t.err := by
+  induction n with
+  | zero =>
+    intro fs hlen hwf s fuel acc hb hrf hin hfuel
+    have hnil : fs = [] := List.eq_nil_of_length_eq_zero (by omega)
+    subst hnil
+    obtain ⟨k, rfl⟩ : ∃ k, fuel = k + 1 := ⟨fuel - 1, by omega⟩
+    have hb0 : Bnd { s with readLength := 0 } := ⟨hb.rem, hb.err, hb.cs, by simp, by show (0 : Int) < 2 ^ 63; decide, hb.lim0, hb.lim1⟩
+    have hN := nextReaderLoop_frames [] hwf { s with readLength := 0 } (s.input.length + 1) hb0 hrf rfl hin (by simp)
+    rcases hN with ⟨e, s', a1, a2, a3, a4, a5⟩ | ⟨f, rest, s', rs, a1, a2, _⟩
+    · refine ⟨{ msgs := acc, err := e, partialLen := 0, final := s' }, ?_, ?_, a4, a5, a2⟩
+      · simp only [sessionLoop, readMessage, nextReader, a1]
+      · have : (specRecv s none []).msgs = [] := a3
+        simp [this]
+    · simp at a2
+  | succ n ih =>
+    intro fs hlen hwf s fuel acc hb hrf hin hfuel
+    obtain ⟨k, rfl⟩ : ∃ k, fuel = k + 1 := ⟨fuel - 1, by omega⟩
+    have hb0 : Bnd { s with readLength := 0 } := ⟨hb.rem, hb.err, hb.cs, by simp, by show (0 : Int) < 2 ^ 63; decide, hb.lim0, hb.lim1⟩
+    have hflen : fs.length < s.input.length + 1 := by
+      have := serialiseAll_length fs; rw [← hin] at this; omega
+    have hN := nextReaderLoop_frames fs hwf { s with readLength := 0 } (s.input.length + 1) hb0 hrf rfl hin hflen
+    rcases hN with ⟨e, s', a1, a2, a3, a4, a5⟩ | ⟨f, rest, s1, rs, a1, a2, a3, a4, a5, a6, a7, a8, a9, a10, a11, a12, a13, a14, a15⟩
+    · refine ⟨{ msgs := acc, err := e, partialLen := 0, final := s' }, ?_, ?_, a4, a5, a2⟩
+      · simp only [sessionLoop, readMessage, nextReader, a1]
+      · have : (specRecv s none fs).msgs = [] := a3
+        simp [this]
+    · -- a data message starts with frame `f`
+      have hnr : nextReader s = .ok f.opcode s1 := a1
+      have a8 : f.len ≤ capOf s.readLimit := a8
+      have a13 : Cfg s s1 := a13
+      have a14 : 0 ≤ s.readLimit := a14
+      have a15 : s.readLimit < 2 ^ 63 := a15
+      have a6 : s1.replies = s.replies ++ rs := a6
+      have hwf_f : f.WF := a3 f (by simp)
+      have hwf_r : ∀ g ∈ rest, g.WF := fun g hg => a3 g (by simp [hg])
+      have hspec0 : specRecv s none fs = preReplies rs (specRecv s none (f :: rest)) := a5
+      have hnv : Spec.Ws.violation (roleOf s.isServer) s.decompress (Option.isSome (none : Option Open)) f = false := by
+        have : violOf s f = false := a7
+        simpa [violOf, hrf] using this
+      have hop3 : f.opcode = 0 ∨ f.opcode = 1 ∨ f.opcode = 2 := Or.inr a4
+      have hspec1 := recvFrom_data (roleOf s.isServer) s.decompress (capOf s.readLimit) none f rest hnv hop3
+      have htot : (openAfter none f).total = f.len := rfl
+      rw [if_neg (by rw [htot]; omega)] at hspec1
+      -- payload of the first frame
+      obtain ⟨sb, p1, p2, p3, p4, p5, p6, p7, p8, p9, p10⟩ :=
+        readAllLoop_payload s1 f (serialiseAll rest) hwf_f a9 (2 * s1.input.length + 3) []
+      have hcfg : Cfg s sb := ⟨p9.1.trans a13.1, p9.2.1.trans a13.2.1, p9.2.2.trans a13.2.2⟩
+      have hbb : Bnd sb := by
+        refine ⟨p3, p4, p5, ?_, ?_, ?_, ?_⟩
+        · rw [p7, a11]; omega
+        · rw [p7, a11]; have := capOf_lt s.readLimit a15; omega
+        · rw [hcfg.2.2]; exact a14
+        · rw [hcfg.2.2]; exact a15
+      have hrepl : sb.replies = s.replies ++ rs := by rw [p8, a6]
+      have hs1len : 2 * rest.length ≤ s1.input.length := by
+        have := serialiseAll_length rest; rw [a9.input]; simp; omega
+      by_cases hfin : f.fin = true
+      · rw [if_pos hfin] at hspec1
+        obtain ⟨k', hk'⟩ : ∃ k', 2 * s1.input.length + 3 + (if f.len = 0 then 1 else 0) = k' + 1 :=
+          ⟨2 * s1.input.length + 3 + (if f.len = 0 then 1 else 0) - 1, by omega⟩
+        have hrm : readMessage s = .ok ({ ty := f.opcode, compressed := f.rsv1, data := f.payload }, none) sb := by
+          simp only [readMessage, hnr]
+          have : 2 * s1.input.length + 4 = (2 * s1.input.length + 3) + 1 := by omega
+          rw [this, p1, hk', readAllLoop_finished k' _ sb p4 p3 (by rw [p6, a10]; exact hfin)]
+          simp [a12]
+        have hdone := readMessage_done hrm
+        have hih := ih rest (by omega) hwf_r sb k (acc ++ [{ ty := f.opcode, compressed := f.rsv1, data := f.payload }])
+          hbb (by rw [p6, a10]; exact hfin) p2 (by omega)
+        rw [specRecv_cfg hcfg] at hih
+        obtain ⟨t, t1, t2, t3, t4, t5⟩ := hih
+        refine ⟨t, ?_, ?_, ?_, ?_, t5⟩
+        · simp only [sessionLoop, hrm]; exact t1
+        · rw [t2, hspec0]
+          show _ = acc ++ (recvFrom _ _ _ none (f :: rest)).msgs.map conv
+          rw [hspec1]; simp [specRecv, conv, openAfter]
+        · rw [t3, hrepl, hspec0]
+          show _ = s.replies ++ (rs ++ (recvFrom _ _ _ none (f :: rest)).replies)
+          rw [hspec1]; simp [specRecv]
+        · rw [hspec0]
+          show EndErr (recvFrom _ _ _ none (f :: rest)).fin t.err
+          rw [hspec1]; exact t4
+      · rw [if_neg hfin] at hspec1
+        have hfin' : f.fin = false := by simpa using hfin
+        have hA := readAllLoop_frames rest hwf_r sb (2 * s1.input.length + 3 + (if f.len = 0 then 1 else 0))
+          (openAfter none f) hbb (by rw [p6, a10]; exact hfin') (by rw [p7, a11]; rfl) p2 (by omega)
+        rw [specRecv_cfg hcfg] at hA
+        have hloop : readAllLoop (2 * s1.input.length + 4) [] s1 =
+            readAllLoop (2 * s1.input.length + 3 + (if f.len = 0 then 1 else 0)) (openAfter none f).acc sb := by
+          have : 2 * s1.input.length + 4 = (2 * s1.input.length + 3) + 1 := by omega
+          rw [this, p1]; rfl
+        rcases hA with ⟨data, e, s', b1, b2, b3, b4, b5⟩ | ⟨data, rest', s', rs', b1, b2, b3, b4, b5, b6, b7, b8, b9⟩
+        · have hrm : readMessage s = .ok ({ ty := f.opcode, compressed := f.rsv1, data := data }, some e) s' := by
+            simp only [readMessage, hnr, hloop, b1]; simp [a12]
+          refine ⟨{ msgs := acc, err := e, partialLen := data.length, final := s' }, ?_, ?_, ?_, ?_, b2⟩
+          · simp only [sessionLoop, hrm]
+          · rw [hspec0]
+            show _ = acc ++ (recvFrom _ _ _ none (f :: rest)).msgs.map conv
+            rw [hspec1]
+            have : (recvFrom (roleOf s.isServer) s.decompress (capOf s.readLimit) (some (openAfter none f)) rest).msgs = [] := b3
+            simp [this]
+          · rw [hspec0]
+            show s'.replies = s.replies ++ (rs ++ (recvFrom _ _ _ none (f :: rest)).replies)
+            rw [hspec1, b4, hrepl]; simp [specRecv]
+          · rw [hspec0]
+            show EndErr (recvFrom _ _ _ none (f :: rest)).fin e
+            rw [hspec1]; exact b5
+        · have hrm : readMessage s = .ok ({ ty := f.opcode, compressed := f.rsv1, data := data }, none) s' := by
+            simp only [readMessage, hnr, hloop, b1]; simp [a12]
+          have hdone := readMessage_done hrm
+          have hcfg' : Cfg s s' := ⟨b9.1.trans hcfg.1, b9.2.1.trans hcfg.2.1, b9.2.2.trans hcfg.2.2⟩
+          have hih := ih rest' (by omega) b3 s' k (acc ++ [{ ty := f.opcode, compressed := f.rsv1, data := data }])
+            b6 b7 b8 (by omega)
+          rw [specRecv_cfg hcfg'] at hih
+          obtain ⟨t, t1, t2, t3, t4, t5⟩ := hih
+          have hsp : recvFrom (roleOf s.isServer) s.decompress (capOf s.readLimit) (some (openAfter none f)) rest = _ := b4
+          refine ⟨t, ?_, ?_, ?_, ?_, t5⟩
+          · simp only [sessionLoop, hrm]; exact t1
+          · rw [t2, hspec0]
+            show _ = acc ++ (recvFrom _ _ _ none (f :: rest)).msgs.map conv
+            rw [hspec1, hsp]; simp [specRecv, conv, openAfter]
+          · rw [t3, b5, hrepl, hspec0]
+            show _ = s.replies ++ (rs ++ (recvFrom _ _ _ none (f :: rest)).replies)
+            rw [hspec1, hsp]; simp [specRecv]
+          · rw [hspec0]
+            show EndErr (recvFrom _ _ _ none (f :: rest)).fin t.err
+            rw [hspec1, hsp]; exact t4
+
+/-- In the spec receiver, failing the connection with 1002 always puts a Close 1002 among the replies. -/
+theorem recvFrom_fail_reply (r : Role) (d : Bool) (cap : Nat) (fs : List Frame) :
+    ∀ st, (recvFrom r d cap st fs).fin = .fail 1002 → (8, be 2 1002) ∈ (recvFrom r d cap st fs).replies := by
+  induction fs with
+  | nil => intro st h; simp [recvFrom] at h
+  | cons f fs ih =>
+    intro st h
+    by_cases hv : Spec.Ws.violation r d st.isSome f = true
+    · rw [recvFrom_viol r d cap st f fs hv]; simp
+    · have hv' : Spec.Ws.violation r d st.isSome f = false := by simpa using hv
+      by_cases h9 : f.opcode = 9
+      · rw [recvFrom_ping r d cap st f fs hv' h9] at h ⊢
+        exact List.mem_cons_of_mem _ (ih st h)
+      · by_cases h10 : f.opcode = 10
+        · rw [recvFrom_pong r d cap st f fs hv' h10] at h ⊢
+          exact ih st h
+        · by_cases h8 : f.opcode = 8
+          · rw [recvFrom_close r d cap st f fs hv' h8] at h
+            split at h <;> cases h
+          · -- data frame: known opcode, not control
+            have hk : f.opcode = 0 ∨ f.opcode = 1 ∨ f.opcode = 2 := by
+              unfold Spec.Ws.violation at hv'
+              simp only [Bool.or_eq_false_iff] at hv'
+              have hk := hv'.1.1.1.1.1.1.2
+              simp only [Bool.not_eq_false', Spec.Ws.knownOpcode, Spec.Ws.isDataStart, Spec.Ws.isControl,
+                Bool.or_eq_true, beq_iff_eq] at hk
+              omega
+            rw [recvFrom_data r d cap st f fs hv' hk] at h ⊢
+            split
+            · rename_i hc; rw [if_pos hc] at h; cases h
+            · rename_i hc; rw [if_neg hc] at h
+              split
+              · rename_i hf; rw [if_pos hf] at h; exact ih none h
+              · rename_i hf; rw [if_neg hf] at h; exact ih _ h
 
 end Oryx.WsRead
